@@ -1,35 +1,54 @@
 """C17 Batch jobs run in dependency order with failure propagation.
 
 Decides (from the syntax trees of hailtop/batch/{batch,backend,job}.py; nothing is run):
-  R1  Batch._async_run: the DFS emits a job after the recursion over its `_dependencies` (post-order) behind a visited guard,
-      every job of the batch is scheduled, ids are the positions in that order, the cycle test is
-      `index(dep) >= index(job) => raise` (linear normal form), and the cycle loop and `self._jobs = ordered` dominate the
-      call of the backend; LocalBackend executes `batch._jobs` in list order
-  R2  LocalBackend: child table = inverse of `_dependencies`; cancel_child_jobs adds exactly the not-always-run children;
-      it is called on the skipped branch and on the failed branch; a skipped job is `continue`d before anything is built and
-      nothing else skips a job; run_code reports a failing command
+  R1  Batch._async_run numbers and hands over the jobs in an order in which every job follows its `_dependencies`, and rejects cycles first.
+      The traversal is recognised in one of three families and its obligations are decided accordingly:
+        * recursive DFS: the job is emitted after the recursion over its `_dependencies` (post-order) behind a visited guard;
+        * explicit work stack visited twice per job (plain entries or (job, expanded) pairs): the lifecycle states of a job - valuations of
+          its membership in the colour sets, the output list and the stack - are derived by abstract execution of the handling code and the
+          finite table "what happens to a dependency found in state s" is enumerated: unvisited -> scheduled; pushed but not yet
+          expanded -> scheduled again (never ignored, never taken for a cycle); being expanded -> rejected; emitted -> left alone; no job is
+          emitted at its first visit or twice;
+        * in-degree counting (Kahn): child table = inverse of `_dependencies` over every job, counter = number of parents, one decrement per
+          finished parent, a job becomes ready exactly at zero (linear normal form of the tests), cycles rejected by comparing the lengths.
+      Both: every job of the batch is started, ids are the positions in that order, a dependency that is still being expanded (= a cycle) is
+      rejected either by the traversal itself or by the order check `index(dep) >= index(job) => raise` (linear normal form) over the finished
+      list, the numbering/check loop and `self._jobs = ordered` dominate the call of the backend; LocalBackend executes `batch._jobs` in list order
+  R2  LocalBackend keeps exactly the not-always-run dependents of failed or skipped jobs from running, in one of two styles:
+        * push: child table = inverse of `_dependencies`; the cancelling helper adds exactly the not-always-run children; the decisions of the
+          job loop are enumerated over (job in cancelled) x (always_run): a cancelled job reaches neither _compile nor run_code and cannot end
+          its iteration - by whatever shortcut - without handing the cancellation on; a job that is not cancelled cannot miss run_code;
+          a failed job cancels, a successful one does not;
+        * pull: the skip test over `job._dependencies` is enumerated over always_run x {no parents, all succeeded, all failed/skipped, mixed}
+          against the set it consults, whose maintenance is classified from the CFG (exactly the succeeded jobs / exactly the failed and
+          skipped jobs); a set of succeeded jobs must be able to contain every possible parent (it cannot when it is per-run and the loop only
+          iterates the unsubmitted jobs).
+      Both: the result of run_code is tested on every path, the loop is never left early, run_code reports a failing command
   R3  resource-induced edges: both recording sites (Job._interpolate_command.handler, PythonJob.call.handle_arg) add the
       producing job to `self._dependencies` on every path with a foreign, non-None source and on no other; depends_on adds
       every argument to the same set
-Does not decide: that the commands themselves fail when they should; the service back end's scheduling (server side).
+Does not decide: that the commands themselves fail when they should; the service back end's scheduling (server side); traversals of other
+shapes (iterator frames, one dependency at a time, colour dictionaries) and skip decisions built from flags or state dictionaries are declined.
 """
 from __future__ import annotations
 
 import ast
-from typing import Callable, Dict, List, Optional, Tuple
+from typing import Callable, Dict, List, Optional, Set, Tuple
 
-from engines import linform, pyfacts as pf
+from engines import c17facts as cf, linform, pyfacts as pf
 from engines.common import AnalysisError, Ctx
 
 META = dict(
     category='other',
     text='Structural necessary conditions decided on the statement CFGs of the three anchors: post-order emission, dominance of the cycle '
-         'check over the backend call, the linear normal form of the cycle test, must-pass-through of the cancellation calls on the skipped '
-         'and failed branches, and sibling agreement of the two sites that record resource-induced edges. Not a proof: the recursion and the '
-         'set semantics are taken from the recognised idioms, not modelled for arbitrary code.',
-    note='Trusted: CPython ast; engines/pyfacts CFG; set/dict/list semantics of add/append/in; subprocess.check_call raises on a non-zero status. '
+         'check over the backend call, the linear normal form of the cycle test, the colour-set typestate table of an explicit-stack traversal, '
+         'must-pass-through of the cancellation on every path a cancelled job can take, the truth table of a pull-style skip decision over '
+         'always_run x classes of parents, and sibling agreement of the two sites that record resource-induced edges. Not a proof: the recursion, '
+         'the LIFO discipline of the work stack and the set semantics are taken from the recognised idioms, not modelled for arbitrary code.',
+    note='Trusted: CPython ast; engines/pyfacts CFG; engines/c17facts abstract executor; set/dict/list semantics of add/append/pop/in; '
+         'subprocess.check_call raises on a non-zero status. '
          '"Transitively" is read as the recursive definition: skipped = not always-run and a direct parent failed or was skipped.',
-    technique='static analysis: CFG dominance / must-pass-through, linear normal forms, sibling agreement',
+    technique='static analysis: CFG dominance / must-pass-through, linear normal forms, typestate over a finite abstract domain, truth tables, sibling agreement',
     design_ref='DESIGN.md §3 C17',
 )
 
@@ -73,6 +92,33 @@ def _calls_to(node: ast.AST, name: str, into_nested: bool = False) -> List[ast.C
     return [c for c in pf.calls_in(node, into_nested) if isinstance(c.func, ast.Name) and c.func.id == name]
 
 
+def _deps_iter(ctx: Ctx, e: ast.AST, var: str, what: str) -> bool:
+    """Does the loop range over every element of `<var>._dependencies`?  Order-only wrappers (sorted, list, tuple, reversed, set, frozenset) are
+    seen through; another attribute of `var` is a recognised wrong edge set (False); anything else is not decided."""
+    x = e
+    while isinstance(x, ast.Call) and isinstance(x.func, ast.Name) and x.func.id in ('sorted', 'list', 'tuple', 'reversed', 'set', 'frozenset') and x.args \
+            and not any(k.arg not in ('key', 'reverse') for k in x.keywords) and len(x.args) == 1:
+        x = x.args[0]
+    if _is_attr(x, var, DEPS):
+        return True
+    ctx.need(isinstance(x, ast.Attribute) and isinstance(x.value, ast.Name) and x.value.id == var, f'{what}: iterable `{pf.nsrc(e)}` not recognised')
+    return False
+
+
+def _table_lookup(e: ast.AST) -> Optional[Tuple[str, ast.AST]]:
+    """`T[k]`, `T.get(k, <empty>)`, `T.setdefault(k, <empty>)`  ->  (T, k)."""
+    if isinstance(e, ast.Subscript) and isinstance(e.value, ast.Name):
+        return e.value.id, e.slice
+    if isinstance(e, ast.Call) and isinstance(e.func, ast.Attribute) and e.func.attr in ('get', 'setdefault') and isinstance(e.func.value, ast.Name) \
+            and 1 <= len(e.args) <= 2 and not e.keywords:
+        if len(e.args) == 2 and pf.nsrc(e.args[1]) not in ('()', '[]', 'set()', 'frozenset()', 'list()', 'tuple()'):
+            return None
+        if len(e.args) == 1 and e.func.attr == 'setdefault':
+            return None
+        return e.func.value.id, e.args[0]
+    return None
+
+
 def _stmts(fn: ast.AST) -> List[ast.stmt]:
     return [n for n in pf.walk_shallow(fn) if isinstance(n, ast.stmt) and n is not fn]
 
@@ -81,15 +127,17 @@ def _stmts(fn: ast.AST) -> List[ast.stmt]:
 # R1
 # ------------------------------------------------------------------------------------------------
 
-def _r1(ctx: Ctx) -> None:
-    m = pf.load(FB)
-    fn = m.func('Batch._async_run')
-    g = pf.cfg(fn)
-    where = f'{FB}::Batch._async_run'
+def _colour_sets(fn: pf.FuncDef) -> List[str]:
+    """Locals of fn bound (once) to an empty set."""
+    out = []
+    for name, vals in pf.assignments(fn).items():
+        if len(vals) == 1 and isinstance(vals[0], ast.Call) and pf.nsrc(vals[0]) == 'set()':
+            out.append(name)
+    return sorted(out)
 
-    rec = [d for d in _nested_defs(fn) if _calls_to(d, d.name)]
-    ctx.need(len(rec) == 1, f'{where}: expected exactly one recursive nested scheduler, found {[d.name for d in rec]}')
-    S = rec[0]
+
+def _r1_recursive(ctx: Ctx, m: pf.Module, fn: pf.FuncDef, where: str, S: pf.FuncDef) -> dict:
+    """Family A: a recursive nested scheduler (post-order DFS behind a visited guard)."""
     ctx.need(len(S.args.args) == 1 and not S.args.vararg and not S.args.kwarg, f'{where}.{S.name}: unexpected parameters')
     jv = S.args.args[0].arg
     sg = pf.cfg(S)
@@ -101,7 +149,7 @@ def _r1(ctx: Ctx) -> None:
     ctx.need(len(loops) == 1, f'{swhere}: expected one loop recursing on its target, found {len(loops)}')
     loop = loops[0]
     ctx.need(len(_calls_to(S, S.name)) == 1, f'{swhere}: more than one recursive call')
-    ctx.check(_is_attr(loop.iter, jv, DEPS), 'R1', f'{swhere}::recursion iterable',
+    ctx.check(_deps_iter(ctx, loop.iter, jv, swhere), 'R1', f'{swhere}::recursion iterable',
               f'the DFS recurses over `{pf.nsrc(loop.iter)}`, not over `{jv}.{DEPS}`: a job can be numbered before a job it depends on',
               m.path, loop.lineno)
     L = _node(sg, loop, 'recursion loop')
@@ -124,8 +172,11 @@ def _r1(ctx: Ctx) -> None:
     mem = [st for st in tests if isinstance(st.test, ast.Compare) and len(st.test.ops) == 1 and isinstance(st.test.ops[0], (ast.In, ast.NotIn))
            and isinstance(st.test.left, ast.Name) and st.test.left.id == jv and isinstance(st.test.comparators[0], ast.Name)]
     gcons = f'{swhere}::visited guard'
+    colour = set(_colour_sets(fn))
+    raising = [t for t in mem if any(isinstance(x, ast.Raise) for x in ast.walk(t))]
+    mem = [t for t in mem if t not in raising]   # `if j in on_path: raise` is the cycle test, not the visited guard
     if not mem:
-        ctx.need(not tests, f'{swhere}: conditionals present but no `{jv} in <set>` test (unrecognised visited idiom)')
+        ctx.need(not [t for t in tests if t not in raising], f'{swhere}: conditionals present but no `{jv} in <set>` test (unrecognised visited idiom)')
         ctx.bad('R1', gcons, f'no `{jv} in <visited>` test guards the recursion: a cyclic pipeline recurses without bound instead of being rejected, '
                              f'and a job reachable along two dependency paths is emitted (numbered, run) twice', m.path, S.lineno)
     else:
@@ -158,49 +209,590 @@ def _r1(ctx: Ctx) -> None:
     ctx.need(arg_ok, f'{where}: {S.name} is not called on the loop variable')
     ctx.check(_is_attr(d0.iter, 'self', '_jobs'), 'R1', f'{where}::all jobs scheduled',
               f'the scheduler is driven over `{pf.nsrc(d0.iter)}`, not over every job in `self._jobs`', m.path, d0.lineno)
+    return dict(family='recursive', O=O, d0=d0, S=S, jv=jv, region=[S, d0], colour=sorted(colour), swhere=swhere)
 
-    # numbering: index dict over enumerate(O, start=1)
-    idx_name = None
+
+def _cycles_recursive(ctx: Ctx, m: pf.Module, fn: pf.FuncDef, where: str, T: dict, has_post: bool) -> None:
+    """Cycle obligation of family A.  The visited guard returns silently for a job that is still being expanded (it is on the recursion
+    path: marked, not yet emitted) - that is a cycle.  It must be rejected either there or by the order check that follows."""
+    S, jv, O = T['S'], T['jv'], T['O']
+    cons = f'{where}::a dependency that is still being expanded is rejected'
+    if has_post:
+        ctx.ok('R1', cons, {'by': 'the order check over the finished list (dominates the back-end call)'})
+        return
+    trav = cf.Traversal(T['swhere'], T['colour'], O, None, DEPS)
+    trav.self_call = S.name
+    first = cf.unique(trav, trav.run(S.body, cf.St(), jv, 'visit'), 'first visit of a job')
+    ctx.need(first.has('deps') and first.has('emit') and trav.at_deps is not None, f'{T["swhere"]}: the first visit of a job does not recurse and emit')
+    G = trav.at_deps
+    outs = trav.run(S.body, G, jv, 'visit')
+    silent = [o for o in outs if o.term != 'raise']
+    done = trav.run(S.body, first.st, jv, 'visit')
+    if not silent and any(o.term == 'raise' for o in done):
+        ctx.bad('R1', cons, f'`{S.name}` raises for a job that has already been emitted ({first.st.describe(trav.sets, O, None)}): the diamond a.depends_on(b, c); '
+                            f'b.depends_on(x); c.depends_on(x) is acyclic but is rejected as cyclic', m.path, S.lineno)
+        return
+    ctx.check(not silent, 'R1', cons,
+              f'no order check follows the traversal, and `{S.name}` does not raise when it reaches a job that is still being expanded '
+              f'({G.describe(trav.sets, O, None)}): for a.depends_on(b); b.depends_on(a) the recursion returns silently at the second visit of a, '
+              f'both jobs are numbered and the back end runs them - a cyclic pipeline is not rejected', m.path, S.lineno)
+
+
+def _r1_worklist(ctx: Ctx, m: pf.Module, fn: pf.FuncDef, where: str) -> dict:
+    """Family B: explicit work stack, every job visited twice (expand: push the dependencies; emit: append to the order)."""
+    sets_ = [st for st in _stmts(fn) if isinstance(st, ast.Assign) and len(st.targets) == 1 and _is_attr(st.targets[0], 'self', '_jobs')]
+    names = {st.value.id for st in sets_ if isinstance(st.value, ast.Name)}
+    ctx.need(len(names) == 1, f'{where}: expected exactly one recursive nested scheduler, found []; and `self._jobs` is not rebound to one local list '
+                              f'(traversal not recognised)')
+    O = names.pop()
+    whiles = [st for st in _stmts(fn) if isinstance(st, ast.While)]
+    wls = [w for w in whiles if any((c := _method_call(x, 'append')) is not None and isinstance(c.func.value, ast.Name) and c.func.value.id == O  # type: ignore[union-attr]
+                                    for x in pf.walk_shallow(w))]
+    ctx.need(len(wls) == 1 and len(whiles) == 1, f'{where}: expected exactly one recursive nested scheduler, found []; and no single work-list loop '
+                                                 f'emitting into `{O}` (traversal not recognised)')
+    wl = wls[0]
+    t = wl.test
+    stack = t.id if isinstance(t, ast.Name) else (t.left.args[0].id if isinstance(t, ast.Compare) and isinstance(t.left, ast.Call) and pf.dotted(t.left.func) == 'len'
+                                                  and len(t.left.args) == 1 and isinstance(t.left.args[0], ast.Name) else
+                                                  (t.args[0].id if isinstance(t, ast.Call) and pf.dotted(t.func) == 'len' and len(t.args) == 1 and isinstance(t.args[0], ast.Name) else None))
+    ctx.need(stack is not None, f'{where}: work-list loop condition `{pf.nsrc(t)}` not recognised')
+    colour = [c for c in _colour_sets(fn) if c not in (stack, O)]
+    twhere = f'{where}::work-list traversal'
+    trav = cf.Traversal(twhere, colour, O, stack, DEPS)
+    ctx.need(trav._is_stack_test(t), f'{where}: work-list loop condition `{pf.nsrc(t)}` not recognised')
+    ctx.need(not wl.orelse, f'{where}: while/else not analysed')
+
+    first = wl.body[0] if wl.body else None
+    ok_first = isinstance(first, ast.Assign) and len(first.targets) == 1
+    ctx.need(ok_first, f'{twhere}: the loop body does not start with `<job> = {stack}[-1]` / `{stack}.pop()`')
+    tgt = first.targets[0]  # type: ignore[union-attr]
+    if isinstance(tgt, ast.Name):
+        jv = tgt.id
+    else:
+        # (job, expanded-flag) pairs on the stack
+        ctx.need(isinstance(tgt, ast.Tuple) and len(tgt.elts) == 2 and all(isinstance(x, ast.Name) for x in tgt.elts),
+                 f'{twhere}: `{pf.nsrc(first)}` does not bind the visited job (or a `job, flag` pair)')
+        jv, trav.flagvar = tgt.elts[0].id, tgt.elts[1].id  # type: ignore[attr-defined,union-attr]
+        ctx.need(len(pf.assignments(fn).get(trav.flagvar, [])) == 1, f'{twhere}: the entry flag `{trav.flagvar}` is reassigned')
+    v = pf.nsrc(first.value)  # type: ignore[union-attr]
+    ctx.need(v in (f'{stack}[-1]', f'{stack}.pop()', f'{stack}[len({stack}) - 1]'), f'{twhere}: `{pf.nsrc(first)}` does not take the top of the work stack '
+             f'(a queue / arbitrary element is a different algorithm)')
+    pop_first = v == f'{stack}.pop()'
+
+    # the driver
+    parents = [lp for lp in _stmts(fn) if isinstance(lp, ast.For) and _inside(lp, wl)]
+    if parents:
+        ctx.need(len(parents) == 1 and isinstance(parents[0].target, ast.Name) and not parents[0].orelse, f'{where}: work-list loop is nested in several loops')
+        d0 = parents[0]
+        mode = 'loop'
+        ctx.check(_is_attr(d0.iter, 'self', '_jobs'), 'R1', f'{where}::all jobs scheduled',
+                  f'the traversal is started from `{pf.nsrc(d0.iter)}`, not from every job in `self._jobs`', m.path, d0.lineno)
+    else:
+        d0 = None
+        mode = 'all'
+        inits = [st for st in fn.body if isinstance(st, (ast.Assign, ast.AnnAssign)) and isinstance(st.targets[0] if isinstance(st, ast.Assign) else st.target, ast.Name)
+                 and (st.targets[0] if isinstance(st, ast.Assign) else st.target).id == stack]  # type: ignore[union-attr]
+        ctx.need(len(inits) == 1 and inits[0].value is not None, f'{where}: initial value of the work stack `{stack}` not found')
+        ival = inits[0].value
+        iv = pf.nsrc(ival)  # type: ignore[arg-type]
+        copies = ('list(self._jobs)', 'list(reversed(self._jobs))', 'self._jobs[:]', 'self._jobs.copy()', '[*self._jobs]', 'self._jobs[::-1]')
+        if isinstance(ival, ast.ListComp) and len(ival.generators) == 1 and not ival.generators[0].ifs and isinstance(ival.generators[0].target, ast.Name) \
+                and pf.nsrc(ival.generators[0].iter) in ('self._jobs', 'reversed(self._jobs)', 'self._jobs[::-1]'):
+            ge = ival.generators[0].target.id
+            elt_ok = (isinstance(ival.elt, ast.Name) and ival.elt.id == ge) if trav.flagvar is None else (cf.Traversal.entry(ival.elt) == (ge, False))
+            ctx.need(elt_ok, f'{where}: initial work stack `{iv}` does not hold every job (unexpanded)')
+        else:
+            ctx.need(iv in copies and trav.flagvar is None, f'{where}: initial work stack `{iv}` is not a copy of self._jobs')
+        ctx.ok('R1', f'{where}::all jobs scheduled', {'stack': iv})
+    return dict(family='worklist', O=O, d0=d0, wl=wl, mode=mode, trav=trav, jv=jv, pop_first=pop_first, region=[d0 if d0 is not None else wl], twhere=twhere, stack=stack)
+
+
+def _zero_test(t: ast.AST, sym: str, alt: Optional[str] = None) -> Optional[bool]:
+    """Is `t` the test "the counter `sym` is zero" (for a counter that is never negative)?  True / False (a recognised different threshold) / None.
+    `alt`: source text of a collection whose emptiness means the same (`j._dependencies`)."""
+    if isinstance(t, ast.UnaryOp) and isinstance(t.op, ast.Not):
+        if pf.nsrc(t.operand) in (sym, alt, f'len({alt})'):
+            return True
+        return None
+    if isinstance(t, ast.Compare) and len(t.ops) == 1:
+        env = {f'len({alt})': linform.sym(sym)} if alt else {}
+        try:
+            a, b = linform.lin(t.left, env), linform.lin(t.comparators[0], env)
+        except AnalysisError:
+            return None
+        d = a - b
+        if set(d.symbols()) != {sym} or abs(d.coef[sym]) != 1:
+            return None
+        k = d.const * d.coef[sym]          # test is about  sym + k  (sign normalised)
+        op = t.ops[0]
+        if d.coef[sym] == -1:
+            op = {ast.Lt: ast.Gt, ast.LtE: ast.GtE, ast.Gt: ast.Lt, ast.GtE: ast.LtE}.get(type(op), type(op))()
+        # sym + k OP 0
+        if isinstance(op, ast.Eq):
+            return k == 0
+        if isinstance(op, ast.LtE):
+            return k == 0
+        if isinstance(op, ast.Lt):
+            return k == -1
+        if isinstance(op, (ast.NotEq, ast.Gt, ast.GtE)):
+            return False
+    return None
+
+
+def _r1_kahn(ctx: Ctx, m: pf.Module, fn: pf.FuncDef, where: str) -> Optional[dict]:
+    """Family C: in-degree counting (Kahn).  Recognised by a single while loop that decrements a per-job counter; None if that cue is absent."""
+    whiles = [st for st in _stmts(fn) if isinstance(st, ast.While)]
+    if len(whiles) != 1:
+        return None
+    wl = whiles[0]
+    decs = [x for x in pf.walk_shallow(wl) if isinstance(x, ast.AugAssign) and isinstance(x.op, ast.Sub) and isinstance(x.target, ast.Subscript)
+            and isinstance(x.target.value, ast.Name) and isinstance(x.target.slice, ast.Name)]
+    if not decs:
+        return None
+    kw = f'{where}::in-degree traversal'
+    ctx.need(len(decs) == 1 and not wl.orelse and any(wl is b for b in fn.body), f'{kw}: expected one counter decrement in a top-level work loop')
+    dec = decs[0]
+    D, cv = dec.target.value.id, dec.target.slice.id  # type: ignore[attr-defined]
+    sets_ = [st for st in _stmts(fn) if isinstance(st, ast.Assign) and len(st.targets) == 1 and _is_attr(st.targets[0], 'self', '_jobs')]
+    names = {st.value.id for st in sets_ if isinstance(st.value, ast.Name)}
+    ctx.need(len(names) == 1, f'{kw}: `self._jobs` is not rebound to one local list')
+    O = names.pop()
+    t = wl.test
+    R = t.id if isinstance(t, ast.Name) else None
+    if R is None:
+        tr = cf.Traversal(kw, [], O, None, DEPS)
+        for cand in pf.names_in(t):
+            tr.stack = cand
+            if tr._is_stack_test(t):
+                R = cand
+    ctx.need(R is not None, f'{kw}: loop condition `{pf.nsrc(t)}` not recognised')
+    first = wl.body[0] if wl.body else None
+    ctx.need(isinstance(first, ast.Assign) and len(first.targets) == 1 and isinstance(first.targets[0], ast.Name)
+             and pf.nsrc(first.value) in (f'{R}.pop()', f'{R}.popleft()', f'{R}.pop(0)'), f'{kw}: the loop body does not start with `<job> = {R}.pop()/popleft()`')
+    jv = first.targets[0].id  # type: ignore[union-attr]
+    rest = wl.body[1:]
+    emits = [b for b in rest if (c := _method_call(b, 'append')) is not None and isinstance(c.func.value, ast.Name) and c.func.value.id == O]  # type: ignore[union-attr]
+    ctx.need(len(emits) == 1 and pf.nsrc(emits[0]) == f'{O}.append({jv})', f'{kw}: expected the unconditional emission `{O}.append({jv})` in the loop body')
+    cloops = [b for b in rest if isinstance(b, ast.For)]
+    ctx.need(len(cloops) == 1 and all(b is emits[0] or b is cloops[0] or isinstance(b, (ast.Pass, ast.Assert)) or (isinstance(b, ast.Expr) and isinstance(b.value, ast.Constant))
+                                      for b in rest), f'{kw}: loop body is not `emit; for child in <children>[{jv}]: ...`')
+    cl = cloops[0]
+    tl = _table_lookup(cl.iter)
+    ctx.need(tl is not None and isinstance(tl[1], ast.Name) and tl[1].id == jv and isinstance(cl.target, ast.Name) and cl.target.id == cv and not cl.orelse,
+             f'{kw}: child loop `for {pf.nsrc(cl.target)} in {pf.nsrc(cl.iter)}` not recognised')
+    table = tl[0]  # type: ignore[index]
+    body = [b for b in cl.body if not isinstance(b, ast.Pass)]
+    ctx.need(len(body) == 2 and body[0] is dec and isinstance(body[1], ast.If) and not body[1].orelse and len(body[1].body) == 1
+             and pf.nsrc(body[1].body[0]) == f'{R}.append({cv})', f'{kw}: child loop body is not `{D}[{cv}] -= 1; if <zero>: {R}.append({cv})`')
+    try:
+        step = linform.lin(dec.value)
+    except AnalysisError:
+        raise AnalysisError(f'{kw}: decrement `{pf.nsrc(dec)}` not recognised')
+    ctx.need(step.is_const(), f'{kw}: decrement `{pf.nsrc(dec)}` not constant')
+    ctx.check(step.const == 1, 'R1', f'{kw}::one edge, one decrement', f'`{pf.nsrc(dec)}` does not count one finished parent as one: a job with two parents becomes ready '
+              + ('after the first one' if step.const > 1 else 'never') + '', m.path, dec.lineno)
+    z = _zero_test(body[1].test, f'{D}[{cv}]')
+    ctx.need(z is not None, f'{kw}: readiness test `{pf.nsrc(body[1].test)}` not recognised')
+    ctx.check(z, 'R1', f'{kw}::ready exactly when no parent is left', f'`{pf.nsrc(body[1].test)}` is not "all parents have been emitted" (`{D}[{cv}] == 0` after the decrement): '
+              f'c.depends_on(a, b) is put on `{R}` - and numbered - while one of its parents is still waiting, or never', m.path, body[1].lineno)
+
+    # the child table
+    fills = [st for st in _stmts(fn) if (c := _method_call(st, 'add') or _method_call(st, 'append')) is not None and (fl := _table_lookup(c.func.value)) is not None and fl[0] == table]
+    ctx.need(len(fills) == 1, f'{kw}: expected one `{table}[...].append/add(...)`, found {len(fills)}')
+    fill = fills[0]
+    fc = fill.value  # type: ignore[attr-defined]
+    encl = [lp for lp in _stmts(fn) if isinstance(lp, ast.For) and _inside(lp, fill)]
+    ctx.need(len(encl) == 2 and all(isinstance(lp.target, ast.Name) for lp in encl) and not any(isinstance(x, (ast.If, ast.Break, ast.Continue)) for lp in encl for x in _stmts(lp)),
+             f'{kw}: child table is not filled unconditionally in a doubly nested loop')
+    outer, inn = (encl[0], encl[1]) if _inside(encl[0], encl[1]) else (encl[1], encl[0])
+    ov, iv = outer.target.id, inn.target.id  # type: ignore[attr-defined]
+    ctx.check(_deps_iter(ctx, inn.iter, ov, kw), 'R1', f'{kw}::edges are {DEPS}', f'the child table is filled from `{pf.nsrc(inn.iter)}`, not from `{ov}.{DEPS}`', m.path, inn.lineno)
+    key, val = _table_lookup(fc.func.value)[1], (fc.args[0] if len(fc.args) == 1 else None)  # type: ignore[index]
+    ctx.check(isinstance(key, ast.Name) and key.id == iv and isinstance(val, ast.Name) and val.id == ov, 'R1', f'{kw}::child table is the inverse of {DEPS}',
+              f'`{pf.nsrc(fill)}` inside `for {ov} in ...: for {iv} in {ov}.{DEPS}` does not record `{ov}` as a child of `{iv}`: finishing a job releases the wrong jobs', m.path, fill.lineno)
+    ctx.check(_is_attr(outer.iter, 'self', '_jobs'), 'R1', f'{where}::all jobs scheduled', f'the child table is built over `{pf.nsrc(outer.iter)}`, not over every job in `self._jobs`',
+              m.path, outer.lineno)
+    g = pf.cfg(fn)
+    W = _node(g, wl.test, 'work loop')
+    ctx.need(any(outer is b for b in fn.body) and g.dominated_by(W, lambda n: n.ast is outer), f'{kw}: child table is not complete before the work loop')
+    tdefs = pf.assignments(fn).get(table, [])
+    ctx.need(len(tdefs) == 1 and pf.nsrc(tdefs[0]) in ('collections.defaultdict(set)', 'defaultdict(set)', '{}', 'dict()', 'collections.defaultdict(list)', 'defaultdict(list)'),
+             f'{kw}: `{table}` is not initialised once to an empty table')
+
+    # the counters
+    icons = f'{kw}::counter starts at the number of parents'
+    ddefs = pf.assignments(fn).get(D, [])
+    ctx.need(len(ddefs) == 1, f'{kw}: `{D}` is assigned {len(ddefs)} times')
+    dd = ddefs[0]
+    others_w = [x for x in pf.walk_shallow(fn) if isinstance(x, (ast.Assign, ast.AugAssign)) and x is not dec
+                and any(isinstance(tg, ast.Subscript) and isinstance(tg.value, ast.Name) and tg.value.id == D for tg in (x.targets if isinstance(x, ast.Assign) else [x.target]))]
+    if isinstance(dd, ast.DictComp):
+        ctx.need(not others_w and len(dd.generators) == 1 and not dd.generators[0].ifs and isinstance(dd.generators[0].target, ast.Name) and isinstance(dd.key, ast.Name)
+                 and dd.key.id == dd.generators[0].target.id, f'{kw}: counter table `{pf.nsrc(dd)[:80]}` not recognised')
+        a = dd.generators[0].target.id
+        ctx.need(_is_attr(dd.generators[0].iter, 'self', '_jobs'), f'{kw}: counters are not initialised for every job of self._jobs')
+        ok_init = pf.nsrc(dd.value) == f'len({a}.{DEPS})'
+        ctx.need(ok_init or 'len(' in pf.nsrc(dd.value), f'{kw}: initial counter `{pf.nsrc(dd.value)}` not recognised')
+        ctx.check(ok_init, 'R1', icons, f'the counter of a job starts at `{pf.nsrc(dd.value)}`, not at `len({a}.{DEPS})`: it reaches zero before / never when all parents are emitted',
+                  m.path, dd.lineno)
+    else:
+        ctx.need(pf.nsrc(dd) in ('{}', 'dict()', 'collections.defaultdict(int)', 'defaultdict(int)') and len(others_w) == 1, f'{kw}: counter table `{D}` not recognised')
+        w = others_w[0]
+        in_outer = any(w is b for b in outer.body)
+        in_inner = any(w is b for b in inn.body)
+        if isinstance(w, ast.Assign) and in_outer and pf.nsrc(w.targets[0]) == f'{D}[{ov}]':
+            ok_init = pf.nsrc(w.value) == f'len({ov}.{DEPS})'
+            ctx.need(ok_init or 'len(' in pf.nsrc(w.value), f'{kw}: initial counter `{pf.nsrc(w.value)}` not recognised')
+            ctx.check(ok_init, 'R1', icons, f'the counter of a job starts at `{pf.nsrc(w.value)}`, not at `len({ov}.{DEPS})`', m.path, w.lineno)
+        elif isinstance(w, ast.AugAssign) and isinstance(w.op, ast.Add) and in_inner and pf.nsrc(w.target) == f'{D}[{ov}]' and pf.nsrc(w.value) == '1' and 'defaultdict(int)' in pf.nsrc(dd):
+            ctx.ok('R1', icons, {'by': 'one increment per edge'})
+        else:
+            raise AnalysisError(f'{kw}: counter initialisation `{pf.nsrc(w)}` not recognised')
+
+    # the initial ready list
+    rdefs = pf.assignments(fn).get(R, [])
+    ctx.need(len(rdefs) == 1, f'{kw}: `{R}` is assigned {len(rdefs)} times')
+    rd = rdefs[0]
+    if isinstance(rd, ast.Call) and (pf.dotted(rd.func) or '').split('.')[-1] in ('deque', 'list') and len(rd.args) == 1:
+        rd = rd.args[0]
+    ctx.need(isinstance(rd, (ast.ListComp, ast.GeneratorExp)) and len(rd.generators) == 1 and isinstance(rd.generators[0].target, ast.Name)
+             and isinstance(rd.elt, ast.Name) and rd.elt.id == rd.generators[0].target.id and len(rd.generators[0].ifs) == 1, f'{kw}: initial ready list `{pf.nsrc(rd)[:80]}` not recognised')
+    a = rd.generators[0].target.id  # type: ignore[union-attr]
+    ctx.need(_is_attr(rd.generators[0].iter, 'self', '_jobs'), f'{kw}: the initial ready list is not drawn from self._jobs')  # type: ignore[union-attr]
+    z0 = _zero_test(rd.generators[0].ifs[0], f'{D}[{a}]', f'{a}.{DEPS}')  # type: ignore[union-attr]
+    ctx.need(z0 is not None, f'{kw}: initial readiness test `{pf.nsrc(rd.generators[0].ifs[0])}` not recognised')  # type: ignore[union-attr]
+    ctx.check(z0, 'R1', f'{kw}::initially ready = no parents', f'the initial ready list takes the jobs with `{pf.nsrc(rd.generators[0].ifs[0])}`, not the jobs without parents', m.path, wl.lineno)  # type: ignore[union-attr]
+    other_pushes = [x for x in pf.walk_shallow(fn) if isinstance(x, ast.Call) and isinstance(x.func, ast.Attribute) and isinstance(x.func.value, ast.Name) and x.func.value.id == R
+                    and x.func.attr in ('append', 'appendleft', 'extend', 'insert', 'extendleft') and x is not body[1].body[0].value]  # type: ignore[attr-defined]
+    ctx.need(not other_pushes, f'{kw}: `{pf.nsrc(other_pushes[0]) if other_pushes else ""}` also feeds the ready list')
+
+    # the rejection of cycles: len(O) against len(self._jobs)
+    length_check = None
+    for st in fn.body:
+        if isinstance(st, ast.If) and any(isinstance(x, ast.Raise) for x in st.body) and not st.orelse:
+            txt = pf.nsrc(st.test)
+            lo, lj = f'len({O})', 'len(self._jobs)'
+            if txt in (f'{lo} != {lj}', f'{lj} != {lo}', f'{lo} < {lj}', f'{lj} > {lo}'):
+                ctx.need(g.dominated_by(_node(g, st.test, 'length check'), lambda n: n is W) and isinstance(st.body[0], ast.Raise), f'{kw}: length check does not follow the work loop')
+                length_check = st
+    return dict(family='kahn', O=O, d0=None, wl=wl, region=[wl, length_check], length_check=length_check)
+
+
+def _typestate_worklist(ctx: Ctx, m: pf.Module, fn: pf.FuncDef, where: str, T: dict, has_post: bool) -> None:
+    """Enumerate the lifecycle states of a job (derived from the code) and decide what the traversal does with a dependency found in
+    each of them.  Every FAIL below names a resting state whose handling breaks the order / the cycle rejection; the example pipeline
+    in the message is a history in which every step is one of the decided table entries."""
+    trav: cf.Traversal = T['trav']
+    wl, jv, O, stack, mode, d0 = T['wl'], T['jv'], T['O'], T['stack'], T['mode'], T['d0']
+    tw = T['twhere']
+    W = cf.St()
+    line = wl.lineno
+
+    def d(st: cf.St) -> str:
+        return st.describe(trav.sets, O, stack)
+
+    flagged = trav.flagvar is not None
+
+    def net(o: cf.Outcome) -> int:
+        """Net effect of one visit on the number of stack entries of the visited job."""
+        return (-1 if T['pop_first'] else 0) + sum(1 for e in o.events if e in ('push', 'pushT')) - sum(1 for e in o.events if e == 'pop')
+
+    def visit(st: cf.St, what: str, top: bool = False) -> Tuple[str, cf.Outcome]:
+        """Abstract visit of the top entry, which denotes the tracked job (top = its expanded-flag when the stack holds pairs)."""
+        ctx.need((st.nflag if (flagged and top) else st.nstack) > 0, f'{tw}: {what}: no such stack entry')
+        trav.flag = top if flagged else None
+        s0 = st
+        if T['pop_first']:
+            s0 = st.with_(flag=-1) if (flagged and top) else st.with_(stack=-1)
+        outs = trav.run(wl.body[1:], s0, jv, 'visit')
+        trav.flag = None
+        o = cf.unique(trav, outs, what)
+        if o.term == 'raise':
+            return 'raise', o
+        if o.term in ('break', 'return'):
+            raise AnalysisError(f'{tw}: {what}: the visit leaves the work-list loop')
+        delta = net(o)
+        deps, emit = o.has('deps'), o.has('emit')
+        if deps and emit:
+            return 'expand+emit', o
+        if deps and delta == 0 and (not flagged or (not top and o.has('pushT'))):
+            return 'expand', o
+        if emit and delta == -1:
+            return 'emit', o
+        if not deps and not emit and delta == -1:
+            return 'discard', o
+        raise AnalysisError(f'{tw}: {what} ({d(st)}): neither expands, emits nor discards the job (events {list(o.events)})')
+
+    def after(st: cf.St, o: cf.Outcome, top: bool = False) -> cf.St:
+        """State after a visit of the TOP entry (computed from the events, so that several entries of one job are accounted for)."""
+        ns, nf = st.nstack, st.nflag
+        gone = (1 if T['pop_first'] else 0) + sum(1 for e in o.events if e == 'pop')
+        if flagged and top:
+            nf -= gone
+        else:
+            ns -= gone
+        ns += sum(1 for e in o.events if e == 'push')
+        nf += sum(1 for e in o.events if e == 'pushT')
+        return cf.St(o.st.bits, o.st.emitted, ns, nf)
+
+    # -- roots ------------------------------------------------------------------------------------
+    rcons = f'{tw}::an unvisited job is started'
+    if mode == 'loop':
+        rv = d0.target.id
+
+        def root(st: cf.St, what: str) -> Tuple[str, cf.Outcome]:
+            o = cf.unique(trav, trav.run(d0.body, st, rv, 'root'), what)
+            if o.has('push') and o.has('loop') and o.events.index('push') < o.events.index('loop'):
+                return 'start', o
+            if not o.has('push') and o.term in ('continue', 'fall'):
+                return 'skip', o
+            raise AnalysisError(f'{tw}: {what}: handling of the root not recognised (events {list(o.events)})')
+        c, o = root(W, 'an unvisited root')
+        if c != 'start':
+            ctx.bad('R1', rcons, f'a job that has not been visited ({d(W)}) is not put on `{stack}` by the driver loop: it is never numbered', m.path, d0.lineno)
+            return
+        ctx.ok('R1', rcons)
+        P_root = o.st
+    else:
+        root = None  # type: ignore[assignment]
+        P_root = cf.St(frozenset(), 0, 1)
+        ctx.ok('R1', rcons, {'mode': 'all jobs pushed initially'})
+
+    # -- two visits -------------------------------------------------------------------------------
+    pcons = f'{tw}::post-order'
+
+    def two_visits(P: cf.St, who: str) -> Optional[Tuple[cf.St, cf.St]]:
+        c1, o1 = visit(P, f'first visit of {who}')
+        if c1 in ('emit', 'expand+emit'):
+            ctx.bad('R1', pcons, f'{who} ({d(P)}) is appended to `{O}` at its first visit'
+                    + (' - its dependencies have only been pushed, none of them is in the list yet' if c1 == 'expand+emit' else ' without its dependencies being looked at')
+                    + ': for b.depends_on(a) created in the order b, a the job b is numbered and run before a', m.path, o1.line or line)
+            return None
+        if c1 != 'expand':
+            raise AnalysisError(f'{tw}: first visit of {who} ({d(P)}) is `{c1}`, not an expansion')
+        G = after(P, o1)
+        c2, o2 = visit(G, f'second visit of {who}', top=True)
+        if c2 != 'emit':
+            raise AnalysisError(f'{tw}: second visit of {who} ({d(G)}) is `{c2}`, not the emission')
+        return G, after(G, o2, top=True)
+
+    r = two_visits(P_root, 'a root job')
+    if r is None:
+        return
+    G_root, B_root = r
+    ctx.need(len(trav.dep_loops) == 1, f'{tw}: expected one loop over the dependencies of the visited job')
+    dl = trav.dep_loops[0]
+    pv = dl.target.id  # type: ignore[attr-defined]
+    ctx.check(_is_attr(dl.iter, jv, DEPS), 'R1', f'{tw}::expansion iterable',
+              f'the expansion pushes `{pf.nsrc(dl.iter)}`, not `{jv}.{DEPS}`: a job can be numbered before a job it depends on', m.path, dl.lineno)
+
+    def dep(st: cf.St, what: str) -> Tuple[str, cf.Outcome]:
+        o = cf.unique(trav, trav.run(dl.body, st, pv, 'dep'), what)
+        if o.term == 'raise':
+            return 'raise', o
+        if o.term == 'return':
+            raise AnalysisError(f'{tw}: {what}: the dependency loop returns')
+        return ('push' if o.has('push') else 'ignore'), o
+
+    ucons = f'{tw}::an unvisited dependency is scheduled'
+    c, o = dep(W, 'an unvisited dependency')
+    if c != 'push':
+        ctx.bad('R1', ucons, f'a dependency that has not been visited ({d(W)}) is ' + ('rejected as a cycle' if c == 'raise' else f'not pushed on `{stack}`')
+                + ': for b.depends_on(a) created in the order b, a ' + ('the acyclic pipeline is rejected' if c == 'raise' else 'b is numbered and run before a'), m.path, dl.lineno)
+        return
+    ctx.ok('R1', ucons)
+    ctx.need(o.term in ('fall', 'continue'), f'{tw}: the expansion stops at the first unvisited dependency (one-at-a-time traversal is not analysed)')
+    P_dep = cf.St(o.st.bits, o.st.emitted, 1)
+    r = two_visits(P_dep, 'a job pushed as a dependency')
+    if r is None:
+        return
+    G_dep, B_dep = r
+    ctx.ok('R1', pcons, {'expanding': d(G_dep), 'emitted': d(B_dep)})
+
+    # -- a dependency that is on the stack but has not been expanded yet ---------------------------
+    # (resting state: the expansion pushes several dependencies, the one on top is expanded while the others wait)
+    qcons = f'{tw}::a pushed, not yet expanded dependency is still ordered first'
+    pend = [P_dep] + ([P_root] if mode == 'all' and P_root != P_dep else [])
+    dup: Optional[cf.St] = None
+    qbad = False
+    for P in pend:
+        c, o = dep(P, 'a pending dependency')
+        if c == 'ignore':
+            qbad = True
+            ctx.bad('R1', qcons,
+                    f'a dependency that was pushed by another job and is still waiting on `{stack}` ({d(P)}) is neither pushed again nor rejected, so the depending job is '
+                    f'emitted first: top.depends_on(low, mid); mid.depends_on(low), top visited first and `top.{DEPS}` iterated low, mid  =>  low and mid are pushed, mid (on top) '
+                    f'is expanded, finds low ({d(P)}), does nothing, and is appended to `{O}` before low'
+                    + ('; the order check that follows then rejects this acyclic pipeline as cyclic' if has_post else
+                       ' - mid is numbered and run before the job it depends on; the same hole hides the cycle x <-> y below top'), m.path, dl.lineno)
+        elif c == 'raise':
+            qbad = True
+            ctx.bad('R1', qcons, f'a dependency that is merely waiting on `{stack}` ({d(P)}) is rejected as a cycle: the acyclic pipeline top.depends_on(low, mid); '
+                                 f'mid.depends_on(low) fails with a cycle error', m.path, o.line or dl.lineno)
+        else:
+            dup = cf.St(o.st.bits, o.st.emitted, 2)
+    if not qbad:
+        ctx.ok('R1', qcons, {'handling': 'pushed again' if dup is not None else 'n/a'})
+
+    # -- a dependency that is being expanded (on the DFS path): a cycle ---------------------------
+    ccons = f'{where}::a dependency that is still being expanded is rejected'
+    cbad = None
+    for G in dict.fromkeys([G_root, G_dep]):
+        c, o = dep(G, 'a dependency that is being expanded')
+        if c != 'raise' and not has_post:
+            cbad = (G, c)
+    if cbad is not None:
+        ctx.bad('R1', ccons, f'a dependency that is being expanded ({d(cbad[0])}) is {"pushed again" if cbad[1] == "push" else "ignored"} instead of raising, and no order check '
+                             f'follows the traversal: for a.depends_on(b); b.depends_on(a) both jobs are numbered and run - a cyclic pipeline is not rejected', m.path, dl.lineno)
+    else:
+        ctx.ok('R1', ccons, {'by': 'the order check over the finished list' if has_post else 'raise in the expansion'})
+
+    # -- a dependency that has been emitted / single emission -------------------------------------
+    econs = f'{tw}::an emitted dependency is left alone'
+    scons = f'{tw}::every job is emitted once'
+    ebad = sbad = False
+
+    def stale(B1: cf.St, how: str) -> None:
+        """A stack entry of an already emitted job comes to the top: it must be discarded."""
+        nonlocal sbad
+        c3, o3 = visit(B1, 'visit of a stale stack entry')
+        if c3 == 'expand':
+            c4, _o4 = visit(after(B1, o3), 'second visit of a stale stack entry', top=True)
+            ctx.need(c4 == 'emit', f'{tw}: a stale stack entry is expanded again but then `{c4}`')
+        if c3 != 'discard':
+            sbad = True
+            ctx.bad('R1', scons, f'{how}; when that entry reaches the top the job ({d(B1)}) is {"expanded and emitted" if c3 == "expand" else c3} again: it is numbered twice and the '
+                                 f'back end runs it twice', m.path, o3.line or line)
+
+    for B in dict.fromkeys([B_root, B_dep]):
+        c, o = dep(B, 'an emitted dependency')
+        if c == 'raise':
+            ebad = True
+            ctx.bad('R1', econs, f'a dependency that is already in `{O}` ({d(B)}) is rejected as a cycle: the diamond a.depends_on(b, c); b.depends_on(x); c.depends_on(x) '
+                                 f'is acyclic but fails with a cycle error', m.path, o.line or dl.lineno)
+        elif c == 'push':
+            stale(cf.St(o.st.bits, o.st.emitted, 1), f'a dependency that is already in `{O}` is pushed again')
+    if dup is not None:
+        c1, o1 = visit(dup, 'first visit of a job pushed twice')
+        if c1 == 'expand':
+            G2 = after(dup, o1)
+            c2, o2 = visit(G2, 'second visit of a job pushed twice', top=True)
+            if c2 == 'emit':
+                stale(after(G2, o2, top=True), f'a waiting dependency is pushed a second time (top.depends_on(low, mid); mid.depends_on(low))')
+            else:
+                raise AnalysisError(f'{tw}: second visit of a job pushed twice is `{c2}`')
+        else:
+            raise AnalysisError(f'{tw}: first visit of a job pushed twice is `{c1}`')
+    if mode == 'loop':
+        for B in dict.fromkeys([B_root, B_dep]):
+            c, o = root(B, 'an emitted root')
+            if c == 'start':
+                stale(cf.St(o.st.bits, o.st.emitted, 1), f'a job that was already emitted as a dependency of an earlier root is started again by the driver loop')
+    if not ebad:
+        ctx.ok('R1', econs)
+    if not sbad:
+        ctx.ok('R1', scons)
+
+
+def _numbering(ctx: Ctx, m: pf.Module, fn: pf.FuncDef, where: str, O: str, region: List[ast.AST]) -> Tuple[List[ast.For], bool]:
+    """ids = positions in O; the order check (post-check) if there is one.  Returns (numbering loop [+ separate check loop], has_post)."""
+    ids = [st for st in _stmts(fn) if isinstance(st, ast.Assign) and len(st.targets) == 1 and isinstance(st.targets[0], ast.Attribute)
+           and st.targets[0].attr == '_job_id']
+    ctx.need(len(ids) == 1, f'{where}: expected one `<job>._job_id = ...`, found {len(ids)}')
+    idst = ids[0]
+    cl = [st for st in fn.body if isinstance(st, ast.For) and _inside(st, idst)]
+    ctx.need(len(cl) == 1 and any(b is idst for b in cl[0].body), f'{where}: `{pf.nsrc(idst)}` is not directly inside one top-level loop')
+    cloop = cl[0]
+
+    def enum_of(it: ast.AST) -> Optional[Tuple[ast.AST, ast.AST]]:
+        """enumerate(X[, start]) -> (X, start expr)"""
+        if isinstance(it, ast.Call) and pf.dotted(it.func) == 'enumerate' and it.args and len(it.args) <= 2:
+            start: ast.AST = ast.Constant(0)
+            if len(it.args) == 2:
+                start = it.args[1]
+            for k in it.keywords:
+                if k.arg == 'start':
+                    start = k.value
+                else:
+                    return None
+            return it.args[0], start
+        return None
+
+    # index table  {job: i for i, job in enumerate(O, ...)}
+    idx_name, idx_start = None, None
     for st in fn.body:
         if isinstance(st, ast.Assign) and len(st.targets) == 1 and isinstance(st.targets[0], ast.Name) and isinstance(st.value, ast.DictComp):
             dc = st.value
-            if len(dc.generators) == 1 and isinstance(dc.generators[0].iter, ast.Call) and pf.dotted(dc.generators[0].iter.func) == 'enumerate':
-                en = dc.generators[0].iter
-                tg = dc.generators[0].target
-                if en.args and isinstance(en.args[0], ast.Name) and en.args[0].id == O and isinstance(tg, ast.Tuple) and len(tg.elts) == 2 \
-                        and all(isinstance(x, ast.Name) for x in tg.elts) and not dc.generators[0].ifs:
-                    iv, ev = tg.elts[0].id, tg.elts[1].id  # type: ignore[attr-defined]
-                    ctx.need(isinstance(dc.key, ast.Name) and dc.key.id == ev and isinstance(dc.value, ast.Name) and dc.value.id == iv,
-                             f'{where}: index dict does not map element -> position')
-                    idx_name = st.targets[0].id
-    ctx.need(idx_name is not None, f'{where}: no `{{job: i for i, job in enumerate({O}, ...)}}` index table')
+            en = enum_of(dc.generators[0].iter) if len(dc.generators) == 1 else None
+            tg = dc.generators[0].target if len(dc.generators) == 1 else None
+            if en is not None and isinstance(en[0], ast.Name) and en[0].id == O and isinstance(tg, ast.Tuple) and len(tg.elts) == 2 \
+                    and all(isinstance(x, ast.Name) for x in tg.elts) and not dc.generators[0].ifs:
+                iv, ev = tg.elts[0].id, tg.elts[1].id  # type: ignore[attr-defined]
+                ctx.need(isinstance(dc.key, ast.Name) and dc.key.id == ev and isinstance(dc.value, ast.Name) and dc.value.id == iv,
+                         f'{where}: index dict does not map element -> position')
+                idx_name, idx_start = st.targets[0].id, pf.nsrc(en[1])
 
-    # the cycle-check loop
-    cl = [st for st in fn.body if isinstance(st, ast.For) and isinstance(st.iter, ast.Name) and st.iter.id == O and isinstance(st.target, ast.Name)
-          and any(isinstance(x, ast.Raise) for x in ast.walk(st))]
-    ctx.need(len(cl) == 1, f'{where}: expected one loop over `{O}` containing the cycle check, found {len(cl)}')
-    cloop = cl[0]
-    j2 = cloop.target.id
-    env: Dict[str, ast.AST] = {}
+    # the numbering loop ranges over O
+    env: Dict[str, object] = {}
+    en = enum_of(cloop.iter)
+    if (isinstance(cloop.iter, ast.Name) or _is_attr(cloop.iter, 'self', '_jobs')) and isinstance(cloop.target, ast.Name):
+        over, j2, counter = cloop.iter, cloop.target.id, None
+    elif en is not None and isinstance(cloop.target, ast.Tuple) and len(cloop.target.elts) == 2 and all(isinstance(x, ast.Name) for x in cloop.target.elts):
+        over, counter, j2 = en[0], cloop.target.elts[0].id, cloop.target.elts[1].id  # type: ignore[attr-defined]
+    else:
+        raise AnalysisError(f'{where}: numbering loop `for {pf.nsrc(cloop.target)} in {pf.nsrc(cloop.iter)}` not recognised')
+    if _is_attr(over, 'self', '_jobs'):
+        # `self._jobs` is the order once it has been rebound to it on every path to the loop
+        g = pf.cfg(fn)
+        rebinds = [st for st in _stmts(fn) if isinstance(st, ast.Assign) and len(st.targets) == 1 and _is_attr(st.targets[0], 'self', '_jobs')]
+        if rebinds and all(isinstance(st.value, ast.Name) and st.value.id == O for st in rebinds) \
+                and g.dominated_by(_node(g, cloop, 'numbering loop'), lambda n: any(n.ast is st for st in rebinds)):
+            over = ast.Name(id=O, ctx=ast.Load())
+        elif counter is None and idx_name is not None:
+            over = ast.Name(id=O, ctx=ast.Load())     # same jobs; the ids come from the index table, not from the iteration order
+    ctx.check(isinstance(over, ast.Name) and over.id == O, 'R1', f'{where}::numbering ranges over the order',
+              f'the ids are assigned in a loop over `{pf.nsrc(over)}`, not over the dependency order `{O}`', m.path, cloop.lineno)
     for st in cloop.body:
         if isinstance(st, ast.Assign) and len(st.targets) == 1 and isinstance(st.targets[0], ast.Name):
             env[st.targets[0].id] = st.value
-    me = linform.sym(f'{idx_name}[{j2}]')
-
-    ids = [st for st in cloop.body if isinstance(st, ast.Assign) and len(st.targets) == 1 and _is_attr(st.targets[0], j2, '_job_id')]
-    ctx.need(len(ids) == 1, f'{where}: expected one `{j2}._job_id = ...` in the numbering loop')
+    if idx_name is not None:
+        me = linform.sym(f'{idx_name}[{j2}]')
+        if counter is not None:
+            ctx.need(pf.nsrc(en[1]) == idx_start, f'{where}: the loop counter and `{idx_name}` count from different starts')  # type: ignore[index]
+            env[counter] = me
+    else:
+        ctx.need(counter is not None, f'{where}: no `{{job: i for i, job in enumerate({O}, ...)}}` index table and no enumerate counter')
+        me = linform.sym(counter)  # type: ignore[arg-type]
     try:
-        id_ok = linform.lin(ids[0].value, env) == me
+        id_ok = linform.lin(idst.value, env) == me  # type: ignore[arg-type]
     except AnalysisError:
         id_ok = False
-    ctx.check(id_ok, 'R1', f'{where}::job id = position', f'`{pf.nsrc(ids[0])}` does not assign the position of the job in the dependency order '
-              f'(`{idx_name}[{j2}]`)', m.path, ids[0].lineno)
+    ctx.need(_is_attr(idst.targets[0], j2, '_job_id'), f'{where}: `{pf.nsrc(idst)}` does not number the loop variable')
+    ctx.check(id_ok, 'R1', f'{where}::job id = position', f'`{pf.nsrc(idst)}` does not assign the position of the job in the dependency order '
+              f'(`{me!r}`)', m.path, idst.lineno)
 
-    inner = [st for st in cloop.body if isinstance(st, ast.For) and isinstance(st.target, ast.Name) and any(isinstance(x, ast.Raise) for x in ast.walk(st))]
-    ctx.need(len(inner) == 1, f'{where}: cycle check is not in a loop over the dependencies')
+    # the order check: in the numbering loop, or in a loop of its own over the same list
+    kloop, kj, kenv = cloop, j2, env
+    others = [st for st in fn.body if isinstance(st, ast.For) and st is not cloop and not any(st is r or _inside(r, st) for r in region if r is not None)
+              and any(isinstance(x, ast.Raise) for x in ast.walk(st))]
+    if others and not any(isinstance(x, ast.Raise) for x in ast.walk(cloop)):
+        ctx.need(len(others) == 1 and isinstance(others[0].iter, ast.Name) and others[0].iter.id == O and isinstance(others[0].target, ast.Name) and idx_name is not None,
+                 f'{where}: raising loop `for {pf.nsrc(others[0].target)} in {pf.nsrc(others[0].iter)}` is not recognised as the order check')
+        kloop, kj = others[0], others[0].target.id  # type: ignore[attr-defined]
+        kenv = {st.targets[0].id: st.value for st in kloop.body if isinstance(st, ast.Assign) and len(st.targets) == 1 and isinstance(st.targets[0], ast.Name)}
+        me = linform.sym(f'{idx_name}[{kj}]')
+    inner = [st for st in kloop.body if isinstance(st, ast.For) and isinstance(st.target, ast.Name) and any(isinstance(x, ast.Raise) for x in ast.walk(st))]
+    stray = [x for x in pf.walk_shallow(fn) if isinstance(x, ast.Raise) and not any(_inside(r, x) for r in region if r is not None) and not any(_inside(i, x) for i in inner)]
+    ctx.need(not stray, f'{where}: `{pf.nsrc(stray[0]) if stray else ""}` outside the traversal and the order check is not recognised')
+    ctx.need(len(inner) <= 1, f'{where}: several raising loops in the numbering loop')
+    if not inner:
+        ctx.need(not any(isinstance(x, ast.Raise) for x in ast.walk(cloop)), f'{where}: raise in the numbering loop is not in a loop over the dependencies')
+        return [cloop], False
+    j2, env = kj, kenv
+    ctx.need(idx_name is not None, f'{where}: order check without a `{{job: i for i, job in enumerate({O}, ...)}}` index table')
     il = inner[0]
-    dv = il.target.id
-    ctx.check(_is_attr(il.iter, j2, DEPS), 'R1', f'{where}::cycle check iterable',
+    dv = il.target.id  # type: ignore[attr-defined]
+    ctx.check(_deps_iter(ctx, il.iter, j2, where), 'R1', f'{where}::cycle check iterable',
               f'the cycle check inspects `{pf.nsrc(il.iter)}`, not `{j2}.{DEPS}`', m.path, il.lineno)
     ifs = [st for st in il.body if isinstance(st, ast.If)]
     ctx.need(len(il.body) == 1 and len(ifs) == 1 and not ifs[0].orelse and len(ifs[0].body) == 1 and isinstance(ifs[0].body[0], ast.Raise),
@@ -208,7 +800,7 @@ def _r1(ctx: Ctx) -> None:
     test = ifs[0].test
     want = me - linform.sym(f'{idx_name}[{dv}]')  # raise  <=>  index(job) - index(dep) <= 0
     try:
-        got = linform.cmp_le0(test, env)
+        got = linform.cmp_le0(test, env)  # type: ignore[arg-type]
     except AnalysisError as e:
         raise AnalysisError(f'{where}: cycle test `{pf.nsrc(test)}` not recognised ({e})')
     ctx.need(set(got.symbols()) == set(want.symbols()), f'{where}: cycle test `{pf.nsrc(test)}` is not over {want.symbols()}')
@@ -216,13 +808,52 @@ def _r1(ctx: Ctx) -> None:
               f'the test `{pf.nsrc(test)}` means `{got!r} <= 0` but a cycle shows as index(dep) >= index(job), i.e. `{want!r} <= 0`: '
               + ('a job that depends on itself (j.depends_on(j)) has index(dep) == index(job) and is accepted' if (got - want).is_const() and (got - want).const > 0
                  else 'acyclic pipelines are rejected / cyclic ones accepted'), m.path, ifs[0].lineno)
+    return ([cloop] if kloop is cloop else [cloop, kloop]), True
+
+
+def _r1(ctx: Ctx) -> None:
+    m = pf.load(FB)
+    fn = m.func('Batch._async_run')
+    g = pf.cfg(fn)
+    where = f'{FB}::Batch._async_run'
+
+    rec = [d for d in _nested_defs(fn) if _calls_to(d, d.name)]
+    ctx.need(len(rec) <= 1, f'{where}: expected exactly one recursive nested scheduler, found {[d.name for d in rec]}')
+    if rec:
+        T = _r1_recursive(ctx, m, fn, where, rec[0])
+    else:
+        T = _r1_kahn(ctx, m, fn, where) or _r1_worklist(ctx, m, fn, where)
+    O, d0 = T['O'], T['d0']
+    # nothing but the traversal writes the order
+    for x in pf.walk_shallow(fn, into_nested_defs=True):
+        if isinstance(x, ast.Call) and isinstance(x.func, ast.Attribute) and isinstance(x.func.value, ast.Name) and x.func.value.id == O \
+                and x.func.attr in ('insert', 'extend', 'reverse', 'sort', 'remove', 'pop', 'clear', '__setitem__'):
+            raise AnalysisError(f'{where}: `{pf.nsrc(x)}` changes the order outside the recognised emission')
+    odefs = pf.assignments(fn).get(O, [])
+    ctx.need(len(odefs) == 1 and isinstance(odefs[0], (ast.List, ast.Call)) and pf.nsrc(odefs[0]) in ('[]', 'list()'), f'{where}: `{O}` is not initialised once to an empty list')
+
+    cloops, has_post = _numbering(ctx, m, fn, where, O, T['region'])
+    # frozen instance counts per recognised shape (clean tree: recursive + order check)
+    ctx.rule('R1', R1_TEXT, {('recursive', True): 13, ('recursive', False): 11, ('worklist', True): 17, ('worklist', False): 15,
+                             ('kahn', True): 16, ('kahn', False): 14}[(T['family'], has_post)])
+    if T['family'] == 'recursive':
+        _cycles_recursive(ctx, m, fn, where, T, has_post)
+    elif T['family'] == 'kahn':
+        ccons = f'{where}::a dependency that is still being expanded is rejected'
+        ctx.check(has_post or T['length_check'] is not None, 'R1', ccons,
+                  f'in-degree counting never emits a job that lies on a cycle, and nothing compares `len({O})` with `len(self._jobs)` (or re-checks the order) before the back end '
+                  f'runs: for a.depends_on(b); b.depends_on(a) both jobs silently drop out of `self._jobs = {O}` and every other job is executed - a cyclic pipeline is not rejected',
+                  m.path, T['wl'].lineno)
+    else:
+        _typestate_worklist(ctx, m, fn, where, T, has_post)
 
     # dominance over the backend call
     bcalls = [c for c in pf.calls_in(fn) if pf.dotted(c.func) == 'self._backend._async_run']
     ctx.need(len(bcalls) >= 1, f'{where}: no call of self._backend._async_run')
-    CL = _node(g, cloop, 'cycle loop')
-    DL = _node(g, d0, 'driver loop')
-    ctx.need(g.dominated_by(CL, lambda n: n is DL), f'{where}: cycle check does not follow the scheduling loop')
+    CLs = [_node(g, c, 'numbering / cycle loop') for c in cloops]
+    DL = _node(g, d0, 'driver loop') if d0 is not None else _node(g, T['wl'].test, 'work-list loop')
+    for c, CL in zip(cloops, CLs):
+        ctx.need(g.dominated_by(CL, lambda n: n is DL) and not _inside(d0 if d0 is not None else T['wl'], c), f'{where}: cycle check does not follow the scheduling loop')
     sets = [st for st in _stmts(fn) if isinstance(st, ast.Assign) and len(st.targets) == 1 and _is_attr(st.targets[0], 'self', '_jobs')]
     dom_bad, ord_bad = [], []
     for bc in bcalls:
@@ -230,14 +861,17 @@ def _r1(ctx: Ctx) -> None:
         ctx.need(len(bn) == 1, f'{where}: backend call node not found')
         B = bn[0]
         ctx.need(bool(bc.args) and isinstance(bc.args[0], ast.Name) and bc.args[0].id == 'self', f'{where}: backend is not run on self')
-        if _inside(cloop, bc) or not g.dominated_by(B, lambda n: n is CL):
+        if any(_inside(c, bc) or not g.dominated_by(B, lambda n, CL=CL: n is CL) for c, CL in zip(cloops, CLs)):
+            dom_bad.append(B)
+        elif T.get('length_check') is not None and not has_post and not g.dominated_by(B, lambda n: n.ast is T['length_check'].test):
             dom_bad.append(B)
         good = [st for st in sets if isinstance(st.value, ast.Name) and st.value.id == O and g.dominated_by(B, lambda n, st=st: n.ast is st)]
         if not good or len(sets) != len([st for st in sets if isinstance(st.value, ast.Name) and st.value.id == O]):
             ord_bad.append(B)
     ctx.check(not dom_bad, 'R1', f'{where}::cycle check dominates backend run',
-              f'there is a path to `self._backend._async_run(...)` (line {dom_bad[0].lineno if dom_bad else 0}) that does not first complete the cycle-check loop: '
-              f'a cyclic pipeline reaches the backend', m.path, dom_bad[0].lineno if dom_bad else 0)
+              f'there is a path to `self._backend._async_run(...)` (line {dom_bad[0].lineno if dom_bad else 0}) that does not first complete the '
+              + ('cycle-check' if has_post else 'numbering') + ' loop: ' + ('a cyclic pipeline reaches the backend' if has_post else 'jobs reach the backend unnumbered'),
+              m.path, dom_bad[0].lineno if dom_bad else 0)
     ctx.check(not ord_bad, 'R1', f'{where}::self._jobs = {O}',
               f'`self._jobs` is not rebound to the dependency order `{O}` on every path before the backend runs '
               f'(found {[pf.nsrc(s) for s in sets] or "no assignment"}): the back ends iterate `batch._jobs` and would run jobs in creation order',
@@ -257,6 +891,85 @@ def _r1(ctx: Ctx) -> None:
 # ------------------------------------------------------------------------------------------------
 # R2
 # ------------------------------------------------------------------------------------------------
+
+def _failure_test(ctx: Ctx, g: pf.CFG, main: ast.For, excv: str, where: str) -> Tuple[Optional[pf.Node], Optional[str]]:
+    """The test of the value returned by run_code and the label of its 'failed' edge."""
+    ftests = []
+    for n in g.nodes:
+        if n.kind == 'test' and n.ast is not None and _inside(main, n.ast) and any(isinstance(x, ast.Name) and x.id == excv for x in ast.walk(n.ast)):
+            ftests.append(n)
+    if not ftests:
+        return None, None
+    fail_lab = None
+    if len(ftests) == 1:
+        t = ftests[0].ast
+        if isinstance(t, ast.Compare) and len(t.ops) == 1 and isinstance(t.left, ast.Name) and t.left.id == excv \
+                and isinstance(t.comparators[0], ast.Constant) and t.comparators[0].value is None:
+            fail_lab = 'T' if isinstance(t.ops[0], (ast.IsNot, ast.NotEq)) else ('F' if isinstance(t.ops[0], (ast.Is, ast.Eq)) else None)
+        elif isinstance(t, ast.Name):
+            fail_lab = 'T'
+        elif isinstance(t, ast.UnaryOp) and isinstance(t.op, ast.Not) and isinstance(t.operand, ast.Name):
+            fail_lab = 'F'
+    ctx.need(fail_lab is not None, f'{where}: test of `{excv}` not recognised')
+    return ftests[0], fail_lab
+
+
+def _expand_loop_locals(fn: pf.FuncDef, main: ast.For, e: ast.AST, depth: int = 2, keep: Tuple[str, ...] = ()) -> ast.AST:
+    """Copy of e with the locals that are assigned exactly once, by a plain statement inside the job loop, replaced by their value
+    (`ok = parents_succeeded(job)` ... `if not ok:`).  Containers and everything defined outside the loop stay names."""
+    import copy
+    inside = {}
+    for st in _stmts(main):
+        if isinstance(st, ast.Assign) and len(st.targets) == 1 and isinstance(st.targets[0], ast.Name):
+            inside.setdefault(st.targets[0].id, []).append(st.value)
+
+    class _S(ast.NodeTransformer):
+        def __init__(self, d: int):
+            self.d = d
+
+        def visit_Name(self, node: ast.Name):
+            if isinstance(node.ctx, ast.Load) and self.d > 0 and node.id not in keep and len(inside.get(node.id, [])) == 1 and pf.single_def(fn, node.id) is inside[node.id][0] \
+                    and not isinstance(inside[node.id][0], (ast.Await, ast.Yield, ast.YieldFrom)):
+                return _S(self.d - 1).visit(copy.deepcopy(inside[node.id][0]))
+            return node
+    return _S(depth).visit(copy.deepcopy(e))
+
+
+def _loop_exits(H: pf.Node) -> List[pf.Node]:
+    return [b for b, lab in H.succ if lab == 'F']
+
+
+def _diverting(g: pf.CFG, path: List[pf.Node], H: pf.Node, RUN: pf.Node) -> Optional[pf.Node]:
+    """The last node of `path` from which run_code can still be reached in the same iteration: the decision that made the job miss it."""
+    can: Set[int] = set()
+    stack = [RUN]
+    while stack:
+        n = stack.pop()
+        for p, lab in n.pred:
+            if lab == 'exc' or p.id in can or p is H:
+                continue
+            can.add(p.id)
+            stack.append(p)
+    last = None
+    for n in path[1:]:
+        if n.id in can:
+            last = n
+    return last
+
+
+def _about_job_itself(dv: Optional[pf.Node], jobv: str, setname: str) -> bool:
+    """Does the decision `dv` depend on something about the job other than `_always_run` and its membership in `setname`?  (Then whether missing
+    run_code loses work - an empty job? - is not decided here.)  A decision that only mixes those atoms with job-independent state is decidable."""
+    if dv is None or dv.ast is None:
+        return False
+    if dv.kind != 'test':
+        return any(jobv in pf.names_in(e) for e in pf.node_exprs(dv))
+    f = cf.parse_formula(dv.ast, jobv, DEPS, '_always_run')
+    for a in f.atoms():
+        if isinstance(a, tuple) and a[1] != setname:
+            return True
+    return any(jobv in pf.names_in(u) for u in f.unknowns())
+
 
 def _r2(ctx: Ctx) -> None:
     m = pf.load(FK)
@@ -280,38 +993,77 @@ def _r2(ctx: Ctx) -> None:
     H = _node(g, main, 'job loop')
     RUN = _node(g, run, 'run_code')
 
-    jobs_expr = pf.resolve_expr(fn, main.iter)
-    ctx.check(_is_attr(jobs_expr, bparam, '_unsubmitted_jobs') or _is_attr(jobs_expr, bparam, '_jobs'), 'R1', f'{where}::iteration order',
-              f'the job loop iterates `{pf.nsrc(jobs_expr)}`, not the ordered list `{bparam}._unsubmitted_jobs`', m.path, main.lineno)
-    jobs_name = main.iter.id if isinstance(main.iter, ast.Name) else None
+    jobs_full = pf.resolve_expr(fn, main.iter)
+    jobs_expr = jobs_full
+    while isinstance(jobs_expr, ast.Call) and isinstance(jobs_expr.func, ast.Name) and jobs_expr.func.id in ('list', 'tuple') and len(jobs_expr.args) == 1 and not jobs_expr.keywords:
+        jobs_expr = pf.resolve_expr(fn, jobs_expr.args[0])      # order-preserving copies
+    in_order = _is_attr(jobs_expr, bparam, '_unsubmitted_jobs') or _is_attr(jobs_expr, bparam, '_jobs')
+    if not in_order:
+        reordered = isinstance(jobs_expr, ast.Call) and isinstance(jobs_expr.func, ast.Name) and jobs_expr.func.id in ('sorted', 'reversed', 'set', 'frozenset')
+        other_attr = isinstance(jobs_expr, ast.Attribute) and isinstance(jobs_expr.value, ast.Name) and jobs_expr.value.id == bparam
+        ctx.need(reordered or other_attr, f'{where}: the list of jobs `{pf.nsrc(jobs_full)}` is not recognised')
+    ctx.check(in_order, 'R1', f'{where}::iteration order',
+              f'the job loop iterates `{pf.nsrc(jobs_full)}`, not the ordered list `{bparam}._unsubmitted_jobs`', m.path, main.lineno)
 
-    # child table
-    cancel = fn and [d for d in _nested_defs(fn) if d.name == 'cancel_child_jobs']
-    ctx.need(len(cancel) == 1 and len(cancel[0].args.args) == 1, f'{where}: nested cancel_child_jobs(j) not found')
-    C = cancel[0]
+    cancel = [d for d in _nested_defs(fn) if len(d.args.args) == 1 and not isinstance(d, ast.AsyncFunctionDef)
+              and any(isinstance(st, ast.For) and (tl := _table_lookup(st.iter)) is not None and isinstance(tl[1], ast.Name) and tl[1].id == d.args.args[0].arg
+                      for st in d.body)]
+    if len(cancel) == 1:
+        _r2_push(ctx, m, fn, g, where, bparam, main, run, jobv, excv, H, RUN, jobs_expr, cancel[0])
+    else:
+        ctx.need(not cancel, f'{where}: several candidate child-cancelling helpers {[d.name for d in cancel]}')
+        _r2_pull(ctx, m, fn, g, where, bparam, main, run, jobv, excv, H, RUN, jobs_expr)
+    _never_left_early(ctx, m, g, where, main, H)
+    _r2_run_code(ctx, m, fn, where)
+    ctx.unit('functions', 3)
+
+
+def _never_left_early(ctx: Ctx, m: pf.Module, g: pf.CFG, where: str, main: ast.For, H: pf.Node) -> None:
+    """Every job of the list is considered: no normal path leaves the job loop other than by exhausting it."""
+    exits = _loop_exits(H)
+    inside = [n for n in g.nodes if n.ast is not None and n is not H and _inside(main, n.ast)]
+    early = None
+    for n in inside:
+        for b, lab in n.succ:
+            if lab != 'exc' and b is not H and (b.ast is None or not _inside(main, b.ast)) and isinstance(n.ast, (ast.Break, ast.Return)):
+                early = n
+    ctx.check(early is None, 'R2', f'{where}::every job of the list is considered',
+              f'`{early.text() if early else ""}` leaves the job loop before the list is exhausted: the jobs behind it are never run - including always-run jobs and jobs '
+              f'that do not depend on anything that failed', m.path, early.lineno if early else main.lineno)
+
+
+def _r2_push(ctx: Ctx, m: pf.Module, fn: pf.FuncDef, g: pf.CFG, where: str, bparam: str, main: ast.For, run: ast.stmt, jobv: str, excv: str,
+             H: pf.Node, RUN: pf.Node, jobs_expr: ast.AST, C: pf.FuncDef) -> None:
+    """Push style: a failed or skipped job marks its children in a `cancelled` set through a child table."""
+    jobs_name = main.iter.id if isinstance(main.iter, ast.Name) else None
     cj = C.args.args[0].arg
+    cwhere = f'{where}.{C.name}'
     cloops = [st for st in C.body if isinstance(st, ast.For)]
-    ctx.need(len(C.body) == 1 and len(cloops) == 1 and isinstance(cloops[0].target, ast.Name) and isinstance(cloops[0].iter, ast.Subscript)
-             and isinstance(cloops[0].iter.value, ast.Name) and isinstance(cloops[0].iter.slice, ast.Name) and cloops[0].iter.slice.id == cj,
-             f'{where}.cancel_child_jobs: not a single loop over `<table>[{cj}]`')
+    tl = _table_lookup(cloops[0].iter) if len(cloops) == 1 else None
+    ctx.need(len(C.body) == 1 and len(cloops) == 1 and isinstance(cloops[0].target, ast.Name) and tl is not None and isinstance(tl[1], ast.Name) and tl[1].id == cj,
+             f'{cwhere}: not a single loop over `<table>[{cj}]`')
     cl = cloops[0]
-    table = cl.iter.value.id  # type: ignore[attr-defined]
+    table = tl[0]  # type: ignore[index]
     child = cl.target.id  # type: ignore[attr-defined]
 
     fills = []
     for st in _stmts(fn):
         c = _method_call(st, 'add')
-        if c is not None and isinstance(c.func.value, ast.Subscript) and isinstance(c.func.value.value, ast.Name) and c.func.value.value.id == table:  # type: ignore[union-attr]
+        if c is not None and (fl := _table_lookup(c.func.value)) is not None and fl[0] == table:  # type: ignore[union-attr]
             fills.append(st)
     ctx.need(len(fills) == 1, f'{where}: expected one `{table}[...].add(...)`, found {len(fills)}')
+    tdefs = pf.assignments(fn).get(table, [])
+    ctx.need(len(tdefs) == 1 and pf.nsrc(tdefs[0]) in ('collections.defaultdict(set)', 'defaultdict(set)', '{}', 'dict()', 'collections.defaultdict(list)', 'defaultdict(list)'),
+             f'{where}: `{table}` is not initialised once to an empty table')
     fill = fills[0]
     fc = fill.value  # type: ignore[attr-defined]
     encl = [lp for lp in _stmts(fn) if isinstance(lp, ast.For) and _inside(lp, fill)]
     ctx.need(len(encl) == 2 and all(isinstance(lp.target, ast.Name) for lp in encl), f'{where}: child table is not filled in a doubly nested loop')
     outer, inn = (encl[0], encl[1]) if _inside(encl[0], encl[1]) else (encl[1], encl[0])
     ov, iv = outer.target.id, inn.target.id  # type: ignore[attr-defined]
-    ctx.need(_is_attr(inn.iter, ov, DEPS), f'{where}: inner loop of the child table does not range over `{ov}.{DEPS}`')
-    key, val = fc.func.value.slice, (fc.args[0] if len(fc.args) == 1 else None)
+    ctx.check(_deps_iter(ctx, inn.iter, ov, where), 'R2', f'{where}::child table ranges over {DEPS}',
+              f'the child table is filled from `{pf.nsrc(inn.iter)}`, not from `{ov}.{DEPS}`: resource-induced and explicit dependencies do not cancel', m.path, inn.lineno)
+    key, val = _table_lookup(fc.func.value)[1], (fc.args[0] if len(fc.args) == 1 else None)  # type: ignore[index]
     inv = isinstance(key, ast.Name) and key.id == iv and isinstance(val, ast.Name) and val.id == ov
     ctx.check(inv, 'R2', f'{where}::child table is the inverse of {DEPS}',
               f'`{pf.nsrc(fill)}` inside `for {ov} in ...: for {iv} in {ov}.{DEPS}` does not record `{ov}` as a child of its parent `{iv}`: '
@@ -321,19 +1073,22 @@ def _r2(ctx: Ctx) -> None:
               f'the child table is built over `{pf.nsrc(outer.iter)}` but the jobs executed are `{pf.nsrc(main.iter)}`', m.path, outer.lineno)
     FILL_OUT = _node(g, outer, 'child table loop')
     ctx.need(g.dominated_by(H, lambda n: n is FILL_OUT) and not _inside(main, outer), f'{where}: child table is not complete before the job loop')
+    # nothing filters the table
+    guards = [st for st in _stmts(outer) if isinstance(st, ast.If) and _inside(st, fill)] + [x for x in _stmts(outer) if isinstance(x, (ast.Break, ast.Continue, ast.Return))]
+    ctx.need(not guards, f'{where}: the child table is filled conditionally (`{pf.nsrc(guards[0])[:60] if guards else ""}`)')
 
-    # cancel_child_jobs body: exactly the not-always-run children
+    # the helper's body: exactly the not-always-run children
     adds = [st for st in _stmts(C) if (c := _method_call(st, 'add')) is not None and isinstance(c.func.value, ast.Name)]  # type: ignore[union-attr]
-    ctx.need(len(adds) == 1, f'{where}.cancel_child_jobs: expected one `<set>.add(...)`')
+    ctx.need(len(adds) == 1, f'{cwhere}: expected one `<set>.add(...)`')
     add = adds[0]
     cancelled = add.value.func.value.id  # type: ignore[attr-defined]
     body_ok = len(cl.body) == 1 and isinstance(cl.body[0], ast.If) and not cl.body[0].orelse and cl.body[0].body == [add]
-    ccons = f'{where}.cancel_child_jobs::adds exactly the not-always-run children'
+    ccons = f'{cwhere}::adds exactly the not-always-run children'
     if not body_ok:
         if cl.body == [add]:
             ctx.bad('R2', ccons, f'every child is cancelled unconditionally: an always-run child of a failed job is skipped', m.path, add.lineno)
         else:
-            raise AnalysisError(f'{where}.cancel_child_jobs: loop body is not `if <test>: {cancelled}.add({child})`')
+            raise AnalysisError(f'{cwhere}: loop body is not `if <test>: {cancelled}.add({child})`')
     else:
         t = cl.body[0].test
         arg = add.value.args[0] if len(add.value.args) == 1 else None  # type: ignore[attr-defined]
@@ -346,7 +1101,7 @@ def _r2(ctx: Ctx) -> None:
         elif pos:
             ctx.bad('R2', ccons, f'the guard `{pf.nsrc(t)}` cancels the always-run children and keeps the others', m.path, add.lineno)
         else:
-            raise AnalysisError(f'{where}.cancel_child_jobs: guard `{pf.nsrc(t)}` not recognised')
+            raise AnalysisError(f'{cwhere}: guard `{pf.nsrc(t)}` not recognised')
     # nothing else writes the cancelled set
     others = []
     for n in pf.walk_shallow(fn, into_nested_defs=True):
@@ -356,8 +1111,9 @@ def _r2(ctx: Ctx) -> None:
                 others.append(n)
     cdefs = [st for st in _stmts(fn) if isinstance(st, (ast.Assign, ast.AugAssign, ast.AnnAssign))
              and any(isinstance(x, ast.Name) and x.id == cancelled and isinstance(x.ctx, ast.Store) for x in ast.walk(st))]
-    init_ok = len(cdefs) == 1 and isinstance(cdefs[0], ast.Assign) and pf.nsrc(cdefs[0].value) in ('set()',) and not _inside(main, cdefs[0])
-    ctx.check(not others and init_ok, 'R2', f'{where}::{cancelled} written only by cancel_child_jobs',
+    init_ok = len(cdefs) == 1 and isinstance(cdefs[0], (ast.Assign, ast.AnnAssign)) and cdefs[0].value is not None and pf.nsrc(cdefs[0].value) in ('set()',) \
+        and not _inside(main, cdefs[0])
+    ctx.check(not others and init_ok, 'R2', f'{where}::{cancelled} written only by {C.name}',
               f'the cancelled set is also modified by {[pf.nsrc(x) for x in others] + [pf.nsrc(x) for x in cdefs[1:]]} or is not initialised once to set() before the loop',
               m.path, (others[0].lineno if others else fn.lineno))
 
@@ -365,94 +1121,263 @@ def _r2(ctx: Ctx) -> None:
         return any(isinstance(c.func, ast.Name) and c.func.id == C.name and len(c.args) == 1 and isinstance(c.args[0], ast.Name) and c.args[0].id == jobv
                    for c in pf.node_calls(n))
 
-    # skipped branch
-    skips = [st for st in main.body if isinstance(st, ast.If) and isinstance(st.test, ast.Compare) and len(st.test.ops) == 1
-             and isinstance(st.test.ops[0], (ast.In, ast.NotIn)) and isinstance(st.test.left, ast.Name) and st.test.left.id == jobv
-             and isinstance(st.test.comparators[0], ast.Name) and st.test.comparators[0].id == cancelled]
+    exits = _loop_exits(H)
+
+    def leaves(n: pf.Node) -> bool:
+        return n is H or any(n is x for x in exits) or n is g.exit
+
+    # ---- the decision for the job that is reached, enumerated over (job in cancelled) x (always_run) -----------------------------------------
+    # A test whose Boolean structure is decided by these two atoms has one live edge; every other test is free.
+    forms: Dict[int, cf.Formula] = {}
+    for n in g.nodes:
+        if n.kind == 'test' and n.ast is not None and _inside(main, n.ast):
+            forms[n.id] = cf.parse_formula(_expand_loop_locals(fn, main, n.ast, keep=(excv,)), jobv, DEPS, '_always_run', extra=cf.none_test_atom(excv, 'E'))
+    tested = [nid for nid, f in forms.items() if ('self_in', cancelled) in f.atoms()]
+    raw = [n for n in pf.walk_shallow(main) if isinstance(n, ast.Name) and n.id == cancelled]
     scons = f'{where}::skipped job'
-    if not skips:
-        anytest = [n for n in pf.walk_shallow(main) if isinstance(n, ast.Compare) and any(isinstance(x, ast.Name) and x.id == cancelled for x in ast.walk(n))]
-        ctx.need(not anytest, f'{where}: `{cancelled}` is tested in an unrecognised way')
+
+    def live_under(val: Dict[object, bool]) -> Callable[[pf.Node, pf.Node, str], bool]:
+        live: Dict[int, str] = {}
+        for nid, f in forms.items():
+            v = cf.ev3(f, val)
+            if v is not None:
+                live[nid] = 'T' if v else 'F'
+        return lambda a, b, lab: a.id not in live or lab == live[a.id]
+
+    def is_work(n: pf.Node) -> bool:
+        return n is RUN or any(isinstance(c.func, ast.Attribute) and c.func.attr == '_compile' for c in pf.node_calls(n))
+
+    body = lambda lab: lab == 'T'  # noqa: E731
+    if not tested:
+        ctx.need(not raw, f'{where}: `{cancelled}` is tested in an unrecognised way')
         ctx.bad('R2', scons, f'the job loop never tests `{jobv} in {cancelled}`: jobs whose parent failed are run anyway', m.path, main.lineno)
-        SK = None
-        skip_lab = 'T'
     else:
-        ctx.need(len(skips) == 1, f'{where}: several tests of `{jobv} in {cancelled}`')
-        sk = skips[0]
-        SK = _node(g, sk.test, 'skip test')
-        skip_lab = 'T' if isinstance(sk.test.ops[0], ast.In) else 'F'  # type: ignore[attr-defined]
-
-        def only_skip(a, b, lab):
-            return a is not SK or lab == skip_lab
-
-        def is_work(n: pf.Node) -> bool:
-            return n is RUN or any(isinstance(c.func, ast.Attribute) and c.func.attr == '_compile' for c in pf.node_calls(n))
-
-        p = g.path_avoiding(SK, is_work, lambda n: n is H, edge_ok=only_skip)
+        ctx.need(len(raw) == len(tested), f'{where}: `{cancelled}` is also used in an unrecognised way inside the job loop')
+        # a job in the set is not always-run (only not-always-run children are ever added - checked above)
+        is_cancelled = live_under({'A': False, ('self_in', cancelled): True})
+        p = cf.search(g, H, is_work, lambda n: n is H, edge_ok=is_cancelled, first=body)
         if p is not None:
             ctx.bad('R2', scons + '::not run', f'a job found in `{cancelled}` still reaches `{p[-1].text()}` in the same iteration: it is executed although a parent failed',
-                    m.path, sk.lineno)
+                    m.path, p[-1].lineno)
         else:
             ctx.ok('R2', scons + '::not run')
-        p = g.path_avoiding(SK, lambda n: n is H or n is g.exit, calls_cancel, edge_ok=only_skip)
+        # ... and never gets to the next job without handing the cancellation on, whatever else the loop tests first
+        p = cf.search(g, H, leaves, calls_cancel, edge_ok=is_cancelled, first=body)
         if p is not None:
-            ctx.bad('R2', scons + '::propagates', f'the skipped-job branch reaches the next iteration without `{C.name}({jobv})`: with a -> b -> c and a failing, '
-                    f'b is skipped but c (not always-run) is run although it depends on a skipped job', m.path, sk.lineno)
+            via = [n for n in p[1:-1] if n.kind in ('test', 'loop')]
+            ctx.bad('R2', scons + '::propagates', f'a job that is in `{cancelled}` (a parent failed or was skipped) can end its iteration'
+                    + (f' through `{via[-1].text()}`' if via else '') + f' without `{C.name}({jobv})`: its own children are never cancelled.  a fails -> b (skipped on this '
+                    f'path) -> c: c is not always-run, depends on the skipped job b, and is run', m.path, (via[-1].lineno if via else main.lineno))
         else:
             ctx.ok('R2', scons + '::propagates')
-        ctx.need(g.dominated_by(RUN, lambda n: n is SK), f'{where}: the skip test does not precede run_code on every path')
 
-    # nothing else skips a job
-    def not_skip_edge(a, b, lab):
-        return not (a is SK and lab == skip_lab) and not (a is H and lab != 'T')
+    # nothing else skips a job, and a job that is not cancelled does not cancel before it ran
+    ocons = f'{where}::only cancelled jobs are skipped'
+    obad = nbad = False
+    for A in (False, True):
+        free = live_under({'A': A, ('self_in', cancelled): False})
+        p = cf.search(g, H, leaves, lambda n: n is RUN, edge_ok=free, first=body)
+        if p is not None and not obad:
+            dv = _diverting(g, p, H, RUN)
+            if _about_job_itself(dv, jobv, cancelled):
+                msg = (f'{where}: a job that is not in `{cancelled}` can miss run_code through `{dv.text()}`; whether that skips work is a property of the job itself '
+                       f'and is not decided')
+                if msg not in _DEFERRED:
+                    _DEFERRED.append(msg)
+            else:
+                obad = True
+                ctx.bad('R2', ocons, f'a job that is not in `{cancelled}` (always_run={A}) can reach the next iteration / leave the loop without `run_code` (via '
+                        f'`{(dv or p[-2]).text()}`): jobs other than the dependents of failed/skipped jobs are skipped', m.path, (dv or p[-2]).lineno)
+        if cf.search(g, H, calls_cancel, lambda n: n is RUN or n is H, edge_ok=free, first=body) is not None:
+            nbad = True
+    if not obad:
+        ctx.ok('R2', ocons)
+    ctx.check(not nbad, 'R2', f'{where}::no cancellation before the job ran', f'`{C.name}({jobv})` is reachable before `run_code` for a job that is not cancelled', m.path, main.lineno)
 
-    first = [(b, lab) for b, lab in H.succ if lab == 'T']
-    ctx.need(len(first) == 1, f'{where}: job loop has no body edge')
-    p = g.path_avoiding(H, lambda n: n is H, lambda n: n is RUN, edge_ok=not_skip_edge)
-    if p is not None and len(p) > 1:
-        ctx.bad('R2', f'{where}::only cancelled jobs are skipped',
-                f'a job that is not in `{cancelled}` can reach the next iteration without `run_code` (via `{p[-2].text()}`): jobs other than the '
-                f'dependents of failed/skipped jobs are skipped', m.path, p[-2].lineno)
-    else:
-        ctx.ok('R2', f'{where}::only cancelled jobs are skipped')
-
-    # failed branch
+    # ---- after run_code, enumerated over (command failed) x (always_run) ---------------------------------------------------------------------
     fcons = f'{where}::failed job propagates'
-    ftests = []
-    for n in g.nodes:
-        if n.kind == 'test' and n.ast is not None and _inside(main, n.ast) and any(isinstance(x, ast.Name) and x.id == excv for x in ast.walk(n.ast)):
-            ftests.append(n)
-    fail_lab = None
-    if len(ftests) == 1:
-        t = ftests[0].ast
-        if isinstance(t, ast.Compare) and len(t.ops) == 1 and isinstance(t.left, ast.Name) and t.left.id == excv \
-                and isinstance(t.comparators[0], ast.Constant) and t.comparators[0].value is None:
-            fail_lab = 'T' if isinstance(t.ops[0], (ast.IsNot, ast.NotEq)) else ('F' if isinstance(t.ops[0], (ast.Is, ast.Eq)) else None)
-        elif isinstance(t, ast.Name):
-            fail_lab = 'T'
-        elif isinstance(t, ast.UnaryOp) and isinstance(t.op, ast.Not) and isinstance(t.operand, ast.Name):
-            fail_lab = 'F'
-    if not ftests:
+    etests = [n for n in g.nodes if n.kind == 'test' and n.ast is not None and _inside(main, n.ast) and excv in pf.names_in(n.ast)]
+    if not etests:
         ctx.bad('R2', fcons, f'the result of `run_code` (`{excv}`) is never tested: a failing job does not cancel its children', m.path, run.lineno)
-    else:
-        ctx.need(fail_lab is not None, f'{where}: test of `{excv}` not recognised')
-        FT = ftests[0]
-        ctx.need(g.dominated_by(FT, lambda n: n is RUN), f'{where}: failure test does not follow run_code')
-        p = g.path_avoiding(FT, lambda n: n is H or n is g.exit, calls_cancel, edge_ok=lambda a, b, lab: a is not FT or lab == fail_lab)
+        return
+    for n in etests:
+        ctx.need('E' in forms[n.id].atoms() and not any(excv in pf.names_in(u) for u in forms[n.id].unknowns()), f'{where}: test `{pf.nsrc(n.ast)}` of `{excv}` not recognised')
+        ctx.need(g.dominated_by(n, lambda x: x is RUN), f'{where}: failure test does not follow run_code')
+    untested = cf.search(g, RUN, leaves, lambda n: any(n is e for e in etests))
+    fbad = False
+    if untested is not None:
+        fbad = True
+        ctx.bad('R2', fcons, f'after `{pf.nsrc(run)}` the iteration can end (via `{untested[-2].text()}`) before `{excv}` is tested: a job that failed on that path '
+                f'does not cancel its children', m.path, untested[-2].lineno)
+    for A in (False, True):
+        if fbad:
+            break
+        p = cf.search(g, RUN, leaves, calls_cancel, edge_ok=live_under({'E': True, 'A': A, ('self_in', cancelled): False}))
         if p is not None:
-            ctx.bad('R2', fcons, f'after a failing command (`{pf.nsrc(FT.ast)}` on the failure side) the next iteration is reached without `{C.name}({jobv})`: '
-                    f'the children of a failed job are run', m.path, FT.lineno)
+            fbad = True
+            via = [n for n in p[1:-1] if n.kind == 'test']
+            ctx.bad('R2', fcons, f'after a failing command of a job with always_run={A} the next iteration is reached'
+                    + (f' (through `{via[-1].text()}`)' if via else '') + f' without `{C.name}({jobv})`: the children of a failed job are run', m.path, (via[-1] if via else etests[0]).lineno)
+    if not fbad:
+        ctx.ok('R2', fcons)
+    # a successful job must not cancel
+    p = cf.search(g, RUN, calls_cancel, leaves, edge_ok=live_under({'E': False, ('self_in', cancelled): False}))
+    ctx.check(p is None, 'R2', f'{where}::successful job does not cancel', f'`{C.name}({jobv})` is reached after a successful command: children of successful jobs are skipped',
+              m.path, etests[0].lineno)
+
+
+PARENT_CLASSES = [(False, False), (True, False), (False, True), (True, True)]   # (has a succeeded parent, has a failed-or-skipped parent)
+
+
+def _r2_pull(ctx: Ctx, m: pf.Module, fn: pf.FuncDef, g: pf.CFG, where: str, bparam: str, main: ast.For, run: ast.stmt, jobv: str, excv: str,
+             H: pf.Node, RUN: pf.Node, jobs_expr: ast.AST) -> None:
+    """Pull style: when a job is reached, the outcome of its parents is looked up in a set filled by the loop itself."""
+    helpers = cf.simple_helpers(fn)
+    exits = _loop_exits(H)
+
+    def leaves(n: pf.Node) -> bool:
+        return n is H or any(n is x for x in exits) or n is g.exit
+
+    # tests between the loop head and run_code
+    fwd = g.reachable_from(H, avoid=lambda n: n is RUN, edge_ok=lambda a, b, lab: lab != 'exc' and not (a is H and lab != 'T'))
+    forms: Dict[int, cf.Formula] = {}
+    for n in g.nodes:
+        if n.kind == 'test' and n.ast is not None and n.id in fwd and _inside(main, n.ast) and n is not RUN:
+            e = cf.inline_expr(_expand_loop_locals(fn, main, n.ast, keep=(excv,)), helpers)
+            f = cf.parse_formula(e, jobv, DEPS, '_always_run')
+            if f.atoms():
+                forms[n.id] = f
+    dep_atoms = {a for f in forms.values() for a in f.atoms() if isinstance(a, tuple) and a[0] in ('all_in', 'none_in')}
+    ctx.need(bool(dep_atoms), f'{where}: no child-cancelling helper over a child table and no skip test over `{jobv}.{DEPS}` found (failure propagation not recognised)')
+    names = {a[1] for a in dep_atoms}
+    ctx.need(len(names) == 1, f'{where}: the skip decision consults several sets {sorted(names)}')
+    ctx.need(not any(isinstance(a, tuple) and a[0] == 'self_in' for f in forms.values() for a in f.atoms()), f'{where}: mixed push/pull skip decision not analysed')
+    S = names.pop()
+
+    # ---- how S is maintained -------------------------------------------------------------------
+    sdefs = [st for st in pf.walk_shallow(fn, into_nested_defs=True) if isinstance(st, (ast.Assign, ast.AugAssign, ast.AnnAssign))
+             and any(isinstance(x, ast.Name) and x.id == S and isinstance(x.ctx, ast.Store) for x in ast.walk(st))]
+    ctx.need(len(sdefs) == 1 and isinstance(sdefs[0], (ast.Assign, ast.AnnAssign)) and sdefs[0].value is not None and pf.nsrc(sdefs[0].value) == 'set()'
+             and not _inside(main, sdefs[0]) and m.enclosing_func(sdefs[0]) is fn,
+             f'{where}: `{S}` is not initialised exactly once, to set(), in this function before the job loop')
+    is_add = call_pred(lambda e: isinstance(e, ast.Name) and e.id == S, 'add', jobv)
+    for n in pf.walk_shallow(fn, into_nested_defs=True):
+        if isinstance(n, ast.Call) and isinstance(n.func, ast.Attribute) and isinstance(n.func.value, ast.Name) and n.func.value.id == S \
+                and n.func.attr in ('add', 'update', 'discard', 'remove', 'clear', 'pop', 'difference_update', 'intersection_update', 'symmetric_difference_update'):
+            ok = n.func.attr == 'add' and len(n.args) == 1 and isinstance(n.args[0], ast.Name) and n.args[0].id == jobv and _inside(main, n) and m.enclosing_func(n) is fn
+            ctx.need(ok, f'{where}: `{pf.nsrc(n)}` writes `{S}` in an unrecognised way')
+    ctx.need(any(is_add(n) for n in g.nodes), f'{where}: nothing is ever added to `{S}`')
+
+    FT, fail_lab = _failure_test(ctx, g, main, excv, where)
+    fcons = f'{where}::failed job propagates'
+    if FT is None:
+        ctx.bad('R2', fcons, f'the result of `run_code` (`{excv}`) is never tested: a failing job is recorded like a successful one and its dependents are run', m.path, run.lineno)
+        return
+    ctx.need(g.dominated_by(FT, lambda n: n is RUN), f'{where}: failure test does not follow run_code')
+    untested = cf.search(g, RUN, leaves, lambda n: n is FT)
+    if untested is not None:
+        ctx.bad('R2', fcons, f'after `{pf.nsrc(run)}` the iteration can end (via `{untested[-2].text()}`) before `{pf.nsrc(FT.ast)}` is tested: the outcome of the job is not '
+                             f'recorded on that path', m.path, untested[-2].lineno)
+        return
+    ok_lab = 'F' if fail_lab == 'T' else 'T'
+    pre_clear = cf.search(g, H, lambda n: n is RUN, lambda n: is_add(n) or n is H, first=lambda lab: lab == 'T') is not None
+    add_nodes = [n for n in g.nodes if is_add(n)]
+    before_run = [a for a in add_nodes if cf.search(g, H, lambda n, a=a: n is a, lambda n: n is RUN or n is H, first=lambda lab: lab == 'T') is not None]
+    pre_may_runs = any(cf.search(g, a, lambda n: n is RUN, lambda n: n is H) is not None for a in before_run)
+
+    def after(lab: str) -> Tuple[bool, bool]:
+        """(must, may) add on the paths through run_code that take the `lab` edge of the failure test."""
+        post_clear = g.path_avoiding(FT, leaves, is_add, edge_ok=lambda a, b, l: l != 'exc' and (a is not FT or l == lab)) is not None
+        post_may = g.path_avoiding(FT, is_add, leaves, edge_ok=lambda a, b, l: l != 'exc' and (a is not FT or l == lab)) is not None
+        return (not (pre_clear and post_clear), pre_may_runs or post_may)
+
+    ok_must, ok_may = after(ok_lab)
+    fail_must, fail_may = after(fail_lab)  # type: ignore[arg-type]
+    skip_path = cf.search(g, H, leaves, lambda n: n is RUN, first=lambda lab: lab == 'T')
+    skip_clear = cf.search(g, H, leaves, lambda n: n is RUN or is_add(n), first=lambda lab: lab == 'T') is not None
+    skip_may = any(cf.search(g, a, leaves, lambda n: n is RUN) is not None for a in before_run)
+    skip_must = skip_path is not None and not skip_clear
+
+    positive = ok_may
+    ctx.rule('R2', R2_TEXT, 15 if positive else 14)   # frozen instance counts of the pull-style shapes
+    mcons = f'{where}::{S} records exactly the ' + ('succeeded' if positive else 'failed and skipped') + ' jobs'
+    if positive:
+        ctx.need(ok_must, f'{where}: `{S}.add({jobv})` happens after some successful runs only')
+        if fail_may:
+            ctx.bad('R2', fcons, f'`{S}.add({jobv})` is also reached after a failing command: the skip decision takes `{S}` for the succeeded jobs, so the children of a failed '
+                                 f'job are run', m.path, FT.lineno)
         else:
             ctx.ok('R2', fcons)
-        # a successful job must not cancel
-        ok_lab = 'F' if fail_lab == 'T' else 'T'
-        p = g.path_avoiding(FT, calls_cancel, lambda n: n is H, edge_ok=lambda a, b, lab: a is not FT or lab == ok_lab)
-        ctx.check(p is None, 'R2', f'{where}::successful job does not cancel', f'`{C.name}({jobv})` is reached after a successful command: children of successful jobs are skipped',
-                  m.path, FT.lineno)
-    # no cancel call before run on the non-skip path
-    p = g.path_avoiding(H, calls_cancel, lambda n: n is RUN, edge_ok=not_skip_edge)
-    ctx.check(p is None, 'R2', f'{where}::no cancellation before the job ran', f'`{C.name}({jobv})` is reachable before `run_code` for a job that is not cancelled', m.path, main.lineno)
+        ctx.check(not skip_may, 'R2', f'{where}::skipped job propagates', f'`{S}.add({jobv})` is reached for a job that was skipped: with a -> b -> c and a failing, b is skipped but '
+                  f'counts as succeeded and c (not always-run) is run', m.path, main.lineno)
+    else:
+        if not fail_must:
+            ctx.bad('R2', fcons, f'after a failing command the next iteration is reached without `{S}.add({jobv})`: the children of a failed job are run', m.path, FT.lineno)
+        else:
+            ctx.ok('R2', fcons)
+        ctx.need(skip_path is not None, f'{where}: no path skips a job')
+        ctx.check(skip_must, 'R2', f'{where}::skipped job propagates', f'a skipped job reaches the next iteration without `{S}.add({jobv})`: with a -> b -> c and a failing, '
+                  f'b is skipped but c (not always-run) is run although it depends on a skipped job', m.path, main.lineno)
+    ctx.ok('R2', mcons, {'ok': [ok_must, ok_may], 'failed': [fail_must, fail_may], 'skipped': [skip_must, skip_may]})
 
+    # ---- the decision, enumerated over (always_run) x (classes of parents) ---------------------
+    def atom_values(has_ok: bool, has_bad: bool) -> Dict[object, bool]:
+        if positive:
+            return {('all_in', S): not has_bad, ('none_in', S): not has_ok}
+        return {('all_in', S): not has_ok, ('none_in', S): not has_bad}
+
+    decision_nodes = set(forms)
+    for A in (False, True):
+        for has_ok, has_bad in PARENT_CLASSES:
+            val: Dict[object, bool] = {'A': A}
+            val.update(atom_values(has_ok, has_bad))
+            fixed: Dict[int, str] = {}
+            for nid, f in forms.items():
+                v = cf.ev3(f, val)
+                if v is not None:
+                    fixed[nid] = 'T' if v else 'F'
+
+            def eok(a, b, lab, fixed=fixed):
+                return a.id not in fixed or lab == fixed[a.id]
+            row = f'always_run={A}, ' + {(False, False): 'no parents', (True, False): 'all parents succeeded', (False, True): 'all parents failed or skipped',
+                                         (True, True): 'one parent succeeded and one failed or was skipped'}[(has_ok, has_bad)]
+            cons = f'{where}::skip decision::{row}'
+            expect_skip = (not A) and has_bad
+            if expect_skip:
+                p = cf.search(g, H, lambda n: n is RUN, lambda n: n is H, edge_ok=eok, first=lambda lab: lab == 'T')
+                ctx.check(p is None, 'R2', cons, f'a job with {row} reaches `run_code`: it depends on a failed or skipped job and must be skipped', m.path, main.lineno)
+            else:
+                p = cf.search(g, H, leaves, lambda n: n is RUN, edge_ok=eok, first=lambda lab: lab == 'T')
+                if p is None:
+                    ctx.ok('R2', cons)
+                    continue
+                dv = _diverting(g, p, H, RUN)
+                if dv is not None and dv.id not in decision_nodes and _about_job_itself(dv, jobv, S):
+                    _DEFERRED.append(f'{where}: a job with {row} can miss run_code through `{dv.text()}`; whether that skips work is a property of the job itself and is not decided')
+                    ctx.ok('R2', cons, {'undecided': dv.text()})
+                else:
+                    ctx.bad('R2', cons, f'a job with {row} is not run (via `{(dv or p[-2]).text()}`): it does not depend on a failed or skipped job'
+                            + (' / it is always-run' if A else '') + ' and must be executed', m.path, (dv or p[-2]).lineno)
+
+    # ---- a set of succeeded jobs only knows the jobs this loop has executed ---------------------
+    if positive:
+        dcons = f'{where}::every possible parent can be in {S}'
+        if _is_attr(jobs_expr, bparam, '_unsubmitted_jobs'):
+            uj = pf.load(FB).func('Batch._unsubmitted_jobs')
+            rets = [st for st in _stmts(uj) if isinstance(st, ast.Return)]
+            ctx.need(len(rets) == 1 and isinstance(rets[0].value, ast.ListComp), f'{FB}::Batch._unsubmitted_jobs not recognised')
+            filt = rets[0].value.generators[0].ifs  # type: ignore[union-attr]
+            ctx.check(not filt, 'R2', dcons,
+                      f'`{S}` starts empty in every run and only receives jobs of `{bparam}._unsubmitted_jobs` (= `{pf.nsrc(rets[0].value)}`), but a dependency may be a job that an '
+                      f'earlier run() already executed: b.run(); second.depends_on(first); b.run()  =>  first is not iterated, is not in `{S}`, and `second` (and everything behind it) '
+                      f'is skipped although no job failed or was skipped', m.path, main.lineno)
+        elif _is_attr(jobs_expr, bparam, '_jobs'):
+            ctx.ok('R2', dcons)
+        else:
+            raise AnalysisError(f'{where}: iteration domain `{pf.nsrc(jobs_expr)}` not recognised')
+
+
+def _r2_run_code(ctx: Ctx, m: pf.Module, fn: pf.FuncDef, where: str) -> None:
     # run_code reports failure
     rc = [d for d in _nested_defs(fn) if d.name == 'run_code']
     ctx.need(len(rc) == 1, f'{where}: nested run_code not found')
@@ -483,7 +1408,6 @@ def _r2(ctx: Ctx) -> None:
         good = good and bool(last_ret) and isinstance(last_ret[-1].ast.value, ast.Name)
     ctx.check(good, 'R2', f'{rwhere}::handler returns the error', f'the `except {pf.nsrc(h.type)}` handler does not return the caught error on every path '
               f'(returns {[pf.nsrc(n.ast) for n in hrets] or "nothing"}): the caller sees None = success and runs the dependents', m.path, h.lineno)
-    ctx.unit('functions', 3)
 
 
 # ------------------------------------------------------------------------------------------------
@@ -600,35 +1524,358 @@ def _dep_site(ctx: Ctx, m: pf.Module, qual: str) -> None:
                 f'with a foreign, non-None source the consumer is not always ordered after the producer')
 
 
+FR = 'hail/python/hailtop/batch/resource.py'
+_BUILTIN_BASES = {'bool': ['int'], 'str': [], 'bytes': [], 'int': [], 'float': [], 'complex': [], 'list': [], 'tuple': [], 'dict': [], 'set': [], 'frozenset': [], 'NoneType': []}
+CONTAINERS = ('list', 'tuple', 'dict')
+
+
+def _value_classes(ctx: Ctx) -> Dict[str, Set[str]]:
+    """The finite domain the argument walker is enumerated over: every class of resource.py that is a Resource (with ALL its ancestors, builtin
+    ones included: ResourceFile is a str) and the three container types the walker is documented to descend into."""
+    rm = pf.load(FR)
+    bases: Dict[str, List[str]] = dict(_BUILTIN_BASES)
+    for c in rm.tree.body:
+        if isinstance(c, ast.ClassDef):
+            bs = [(pf.dotted(b) or '').split('.')[-1] for b in c.bases]
+            ctx.need(all(bs), f'{FR}::{c.name}: base class expression not recognised')
+            bases[c.name] = bs
+
+    def anc(c: str, seen: Optional[Set[str]] = None) -> Set[str]:
+        seen = seen if seen is not None else set()
+        if c in seen:
+            return seen
+        seen.add(c)
+        for b in bases.get(c, []):
+            anc(b, seen)
+        return seen
+    out = {c: anc(c) for c in bases if c not in _BUILTIN_BASES and 'Resource' in anc(c)}
+    ctx.need(len(out) >= 2, f'{FR}: Resource class hierarchy not found')
+    for c in CONTAINERS:
+        out[c] = {c}
+    return out
+
+
+def _type_names(m: pf.Module, e: ast.AST, depth: int = 3) -> Optional[Set[str]]:
+    """Class names of the second argument of isinstance (names, tuples, module-level tuple constants, type(None))."""
+    if isinstance(e, ast.Tuple):
+        out: Set[str] = set()
+        for x in e.elts:
+            r = _type_names(m, x, depth)
+            if r is None:
+                return None
+            out |= r
+        return out
+    if isinstance(e, ast.Call) and pf.nsrc(e) == 'type(None)':
+        return {'NoneType'}
+    d = pf.dotted(e)
+    if d is None:
+        return None
+    if isinstance(e, ast.Name) and depth > 0:
+        try:
+            v = m.global_assign(e.id)
+        except AnalysisError:
+            v = None
+        if v is not None:
+            return _type_names(m, v, depth - 1)
+    return {d.split('.')[-1]}
+
+
+def _walk_paths(m: pf.Module, stmts: List[ast.stmt], env: Dict[str, Set[str]], where: str) -> List[Tuple[Tuple[Tuple[str, object], ...], bool]]:
+    """All paths through stmts for variables of known class (env: name -> set of ancestors): (events, all tests on the path decided).
+    events: ('call', 'f(x)' text) for statement-level calls `f(<name>)`, ('for', <For node>)."""
+    def ev(t: ast.AST) -> Optional[bool]:
+        if isinstance(t, ast.UnaryOp) and isinstance(t.op, ast.Not):
+            v = ev(t.operand)
+            return None if v is None else not v
+        if isinstance(t, ast.BoolOp):
+            vs = [ev(x) for x in t.values]
+            if isinstance(t.op, ast.And):
+                return False if any(v is False for v in vs) else (True if all(v is True for v in vs) else None)
+            return True if any(v is True for v in vs) else (False if all(v is False for v in vs) else None)
+        if isinstance(t, ast.Call) and pf.dotted(t.func) == 'isinstance' and len(t.args) == 2 and isinstance(t.args[0], ast.Name) and t.args[0].id in env:
+            names = _type_names(m, t.args[1])
+            if names is None:
+                return None
+            return bool(env[t.args[0].id] & names)
+        return None
+
+    def run(block: List[ast.stmt]) -> List[Tuple[Tuple[Tuple[str, object], ...], bool, bool]]:
+        outs: List[Tuple[Tuple[Tuple[str, object], ...], bool, bool]] = [((), True, False)]   # events, decided, terminated
+        for st in block:
+            nxt = []
+            for evs, dec, term in outs:
+                if term:
+                    nxt.append((evs, dec, term))
+                    continue
+                if isinstance(st, ast.If):
+                    v = ev(st.test)
+                    for branch, take in ((st.body, v is not False), (st.orelse, v is not True)):
+                        if take:
+                            for e2, d2, t2 in run(branch):
+                                nxt.append((evs + e2, dec and d2 and v is not None, t2))
+                elif isinstance(st, ast.Expr) and isinstance(st.value, ast.Call) and isinstance(st.value.func, ast.Name) and len(st.value.args) == 1 \
+                        and isinstance(st.value.args[0], ast.Name) and not st.value.keywords:
+                    nxt.append((evs + (('call', f'{st.value.func.id}({st.value.args[0].id})'),), dec, False))
+                elif isinstance(st, ast.For):
+                    nxt.append((evs + (('for', st),), dec, False))
+                elif isinstance(st, (ast.Return, ast.Raise, ast.Continue, ast.Break)):
+                    nxt.append((evs, dec, True))
+                elif isinstance(st, (ast.Pass, ast.Assert)) or (isinstance(st, ast.Expr) and isinstance(st.value, ast.Constant)):
+                    nxt.append((evs, dec, False))
+                else:
+                    raise AnalysisError(f'{where}: statement `{pf.nsrc(st)[:60]}` in the argument walker not recognised')
+            outs = nxt
+        return outs
+    return [(e, d) for e, d, _t in run(stmts)]
+
+
+def _argument_walker(ctx: Ctx, m: pf.Module) -> None:
+    """PythonJob.call: every Resource among the arguments - top level or nested in lists, tuples and dict values - reaches handle_arg.
+    Enumerated over the classes of resource.py (with their builtin ancestors) and the three container types."""
+    call = m.func('PythonJob.call')
+    ha = m.func('PythonJob.call.handle_args')
+    where = f'{FJ}::PythonJob.call'
+    hwhere = f'{where}.handle_args'
+    ctx.need(len(ha.args.args) == 1, f'{hwhere}: parameters changed')
+    r = ha.args.args[0].arg
+    classes = _value_classes(ctx)
+    resources = [c for c in classes if c not in CONTAINERS]
+    body = [b for b in ha.body if not (isinstance(b, ast.Expr) and isinstance(b.value, ast.Constant))]
+    undecided: List[str] = []
+
+    def every_path_calls(stmts: List[ast.stmt], env: Dict[str, Set[str]], wanted: str, w: str) -> Optional[bool]:
+        """True: every path calls `wanted`; False: a path on which every test is decided does not; None: only undecided paths miss it."""
+        res: Optional[bool] = True
+        for evs, dec in _walk_paths(m, stmts, env, w):
+            if ('call', wanted) not in evs:
+                if dec:
+                    return False
+                res = None
+        return res
+
+    def elements_walked(stmts: List[ast.stmt], env: Dict[str, Set[str]], var: str, kind: str, w: str) -> Tuple[Optional[bool], str]:
+        """Every element (list/tuple) or value (dict) of `var` is handed to handle_args, whatever its class."""
+        verdict: Optional[bool] = True
+        why = ''
+        for evs, dec in _walk_paths(m, stmts, env, w):
+            loops = [x for k, x in evs if k == 'for']
+            ok_loop = None
+            for lp in loops:
+                it = lp.iter  # type: ignore[attr-defined]
+                if kind == 'dict':
+                    if isinstance(it, ast.Call) and isinstance(it.func, ast.Attribute) and isinstance(it.func.value, ast.Name) and it.func.value.id == var and not it.args:
+                        if it.func.attr == 'values' and isinstance(lp.target, ast.Name):  # type: ignore[attr-defined]
+                            ok_loop = (lp, lp.target.id)  # type: ignore[attr-defined]
+                        elif it.func.attr == 'items' and isinstance(lp.target, ast.Tuple) and len(lp.target.elts) == 2 and isinstance(lp.target.elts[1], ast.Name):  # type: ignore[attr-defined]
+                            ok_loop = (lp, lp.target.elts[1].id)  # type: ignore[attr-defined]
+                elif isinstance(it, ast.Name) and it.id == var and isinstance(lp.target, ast.Name):  # type: ignore[attr-defined]
+                    ok_loop = (lp, lp.target.id)  # type: ignore[attr-defined]
+            if ok_loop is None:
+                if dec:
+                    return False, f'a {kind} is not iterated'
+                verdict = None
+                continue
+            lp, ev_ = ok_loop
+            ctx.need(not lp.orelse, f'{w}: for/else not analysed')  # type: ignore[attr-defined]
+            for c, an in classes.items():
+                got = every_path_calls(lp.body, {ev_: an}, f'handle_args({ev_})', w)  # type: ignore[attr-defined]
+                if got is False:
+                    strs = sorted(an & set(_BUILTIN_BASES))
+                    return False, (f'an element of class {c}' + (f' (which is a {"/".join(strs)})' if strs and c not in CONTAINERS else '')
+                                   + f' inside a {kind} is not handed to handle_args (`for {pf.nsrc(lp.target)} in {pf.nsrc(lp.iter)}`, line {lp.lineno})')  # type: ignore[attr-defined]
+                if got is None:
+                    verdict = None
+        return verdict, why
+
+    # the walker itself
+    rcons = f'{hwhere}::every Resource reaches handle_arg'
+    bad = None
+    for c in resources:
+        got = every_path_calls(body, {r: classes[c]}, f'handle_arg({r})', hwhere)
+        if got is False:
+            bad = c
+        elif got is None:
+            undecided.append(f'{hwhere}: whether a {c} reaches handle_arg depends on a test that is not decided')
+    ctx.check(bad is None, 'R3', rcons, f'a `{bad}` passed to handle_args does not reach `handle_arg({r})` (classes and their ancestors: '
+              f'{ {c: sorted(classes[c]) for c in resources} }): it induces no dependency on the job that produces it', m.path, ha.lineno)
+    ccons = f'{hwhere}::containers are walked completely'
+    cbad = None
+    for kind in CONTAINERS:
+        got, why = elements_walked(body, {r: classes[kind]}, r, kind, hwhere)
+        if got is False:
+            cbad = why
+        elif got is None:
+            undecided.append(f'{hwhere}: whether every element of a {kind} is walked depends on a test that is not decided')
+    ctx.check(cbad is None, 'R3', ccons, f'{cbad}: consumer.call(f, [producer.ofile]) / consumer.call(f, {{"x": producer.ofile}}) records no dependency on producer, '
+              f'so consumer can be numbered and run before it and is not skipped when it fails', m.path, ha.lineno)
+
+    # ... and is applied to *args and **kwargs
+    va, kw = (call.args.vararg.arg if call.args.vararg else None), (call.args.kwarg.arg if call.args.kwarg else None)
+    ctx.need(va is not None and kw is not None, f'{where}: *args / **kwargs parameters not found')
+    top = [b for b in call.body if (isinstance(b, ast.Expr) and isinstance(b.value, ast.Call) and isinstance(b.value.func, ast.Name) and b.value.func.id == 'handle_args')
+           or (isinstance(b, ast.For) and _calls_to(b, 'handle_args'))]
+    others = [c for c in _calls_to(call, 'handle_args') if not any(_inside(t, c) or (isinstance(t, ast.Expr) and t.value is c) for t in top)]
+    ctx.need(not others, f'{where}: `{pf.nsrc(others[0]) if others else ""}` is applied conditionally / in an unrecognised position')
+    tbad = None
+    for var, kind in ((va, 'tuple'), (kw, 'dict')):
+        whole = any(isinstance(t, ast.Expr) and isinstance(t.value.args[0] if t.value.args else None, ast.Name) and t.value.args[0].id == var for t in top)  # type: ignore[attr-defined]
+        if whole:
+            continue
+        got, why = elements_walked([t for t in top if isinstance(t, ast.For)], {var: classes[kind]}, var, kind, where)  # type: ignore[arg-type]
+        if got is False:
+            tbad = f'`{"*" if kind == "tuple" else "**"}{var}`: {why}'
+        elif got is None:
+            undecided.append(f'{where}: whether every element of {var} is walked depends on a test that is not decided')
+    ctx.check(tbad is None, 'R3', f'{where}::every argument is inspected',
+              f'{tbad}: a resource passed that way induces no dependency', m.path, call.lineno)
+    for u in undecided:
+        if u not in _DEFERRED:
+            _DEFERRED.append(u)
+
+
+def _depends_on(ctx: Ctx, m: pf.Module) -> None:
+    """Job.depends_on(*jobs) adds every argument to self._dependencies.  A write that is guarded is decided for a job that is not yet in the
+    set and is not None; guards that look at anything else about the job (attributes, helper calls) are data-dependent filters."""
+    dep = m.func('Job.depends_on')
+    where = f'{FJ}::Job.depends_on'
+    va = dep.args.vararg.arg if dep.args.vararg else None
+    ctx.need(va is not None, f'{where}: no *jobs parameter')
+    par = m.parents()
+
+    def strip(e: ast.AST) -> ast.AST:
+        while isinstance(e, ast.Call) and isinstance(e.func, ast.Name) and e.func.id in ('set', 'list', 'tuple', 'frozenset') and len(e.args) == 1 and not e.keywords:
+            e = e.args[0]
+        return e
+
+    def guard_value(t: ast.AST, tv: str) -> Optional[bool]:
+        """Value of a guard for a job `tv` that is not None and not yet a dependency (None: depends on something else)."""
+        if isinstance(t, ast.UnaryOp) and isinstance(t.op, ast.Not):
+            v = guard_value(t.operand, tv)
+            return None if v is None else not v
+        if isinstance(t, ast.BoolOp):
+            vs = [guard_value(x, tv) for x in t.values]
+            if isinstance(t.op, ast.And):
+                return False if any(v is False for v in vs) else (True if all(v is True for v in vs) else None)
+            return True if any(v is True for v in vs) else (False if all(v is False for v in vs) else None)
+        if isinstance(t, ast.Compare) and len(t.ops) == 1 and isinstance(t.left, ast.Name) and t.left.id == tv:
+            op, rhs = t.ops[0], t.comparators[0]
+            if _is_attr(rhs, 'self', DEPS) and isinstance(op, (ast.In, ast.NotIn)):
+                return isinstance(op, ast.NotIn)
+            if isinstance(rhs, ast.Constant) and rhs.value is None and isinstance(op, (ast.Is, ast.IsNot, ast.Eq, ast.NotEq)):
+                return isinstance(op, (ast.IsNot, ast.NotEq))
+        if isinstance(t, ast.Call) and pf.dotted(t.func) == 'isinstance' and len(t.args) == 2 and isinstance(t.args[0], ast.Name) and t.args[0].id == tv \
+                and pf.nsrc(t.args[1]) in ('Job', 'job.Job'):
+            return True
+        return None
+
+    def data_dependent(t: ast.AST, tv: str) -> bool:
+        """The guard reads the content of the job (attribute, helper call on it): a filter, not validation."""
+        for x in ast.walk(t):
+            if isinstance(x, ast.Call) and pf.dotted(x.func) != 'isinstance' and any(isinstance(y, ast.Name) and y.id == tv for a in x.args for y in ast.walk(a)):
+                return True
+            if isinstance(x, ast.Attribute) and isinstance(x.value, ast.Name) and x.value.id == tv:
+                return True
+        return False
+
+    writes: List[Tuple[ast.AST, ast.AST]] = []   # (statement-level node, value written)
+    for x in pf.walk_shallow(dep):
+        if isinstance(x, ast.Call) and isinstance(x.func, ast.Attribute) and _is_attr(x.func.value, 'self', DEPS) and x.func.attr in ('add', 'update') and len(x.args) == 1:
+            writes.append((x, x.args[0]))
+        elif isinstance(x, ast.AugAssign) and _is_attr(x.target, 'self', DEPS) and isinstance(x.op, ast.BitOr):
+            writes.append((x, x.value))
+        elif isinstance(x, (ast.Assign, ast.AnnAssign)) and any(_is_attr(t, 'self', DEPS) for t in (x.targets if isinstance(x, ast.Assign) else [x.target])):
+            raise AnalysisError(f'{where}: `{pf.nsrc(x)}` rebinds self.{DEPS}')
+    cons = where
+    if not writes:
+        ctx.bad('R3', cons, f'never writes `self.{DEPS}`: explicit dependencies are lost', m.path, dep.lineno)
+        return
+    covered, lossy, unknown = False, None, None
+    for node, val in writes:
+        # enclosing statements up to the function
+        chain: List[ast.AST] = []
+        cur = par.get(node)
+        while cur is not None and cur is not dep:
+            chain.append(cur)
+            cur = par.get(cur)
+        loops = [c for c in chain if isinstance(c, (ast.For, ast.While))]
+        ifs = [c for c in chain if isinstance(c, ast.If)]
+        is_add = isinstance(node, ast.Call) and node.func.attr == 'add'  # type: ignore[attr-defined]
+        if not is_add:
+            v = strip(val)
+            if isinstance(v, ast.Name) and v.id == va and not loops and not ifs:
+                covered = True
+            elif isinstance(v, (ast.GeneratorExp, ast.ListComp, ast.SetComp)) and any(g.ifs for g in v.generators):
+                lossy = f'`{pf.nsrc(node)}` filters the jobs'
+            elif isinstance(v, ast.Subscript) and isinstance(v.value, ast.Name) and v.value.id == va:
+                lossy = f'`{pf.nsrc(node)}` takes only part of `*{va}`'
+            else:
+                unknown = f'`{pf.nsrc(node)}` not recognised'
+            continue
+        if isinstance(val, ast.Subscript) and isinstance(val.value, ast.Name) and val.value.id == va:
+            lossy = f'`{pf.nsrc(node)}` adds only one element of `*{va}`'
+            continue
+        if not (len(loops) == 1 and isinstance(loops[0], ast.For) and isinstance(loops[0].iter, ast.Name) and loops[0].iter.id == va
+                and isinstance(loops[0].target, ast.Name) and isinstance(val, ast.Name) and val.id == loops[0].target.id and not loops[0].orelse):
+            unknown = f'`{pf.nsrc(node)}` is not inside `for <j> in {va}`'
+            continue
+        loop = loops[0]
+        tv = loop.target.id  # type: ignore[attr-defined]
+        if any(i for i in ifs if not _inside(loop, i)):
+            unknown = f'the loop over `*{va}` is conditional'
+            continue
+        verdict: Optional[bool] = True
+        reason = ''
+        for i in ifs:
+            in_body = any(x is node for b in i.body for x in ast.walk(b))
+            v = guard_value(i.test, tv)
+            sat = None if v is None else (v if in_body else not v)
+            if sat is True:
+                continue
+            if sat is False or data_dependent(i.test, tv):
+                verdict, reason = False, f'`{pf.nsrc(node)}` is guarded by `{pf.nsrc(i.test)}`' + ('' if in_body else ' (else branch)')
+                break
+            verdict, reason = None, f'guard `{pf.nsrc(i.test)}` of `{pf.nsrc(node)}` is not decided'
+        # early exits from the loop body
+        for x in pf.walk_shallow(loop):
+            if isinstance(x, (ast.Continue, ast.Break, ast.Return)) and verdict is True:
+                gs = []
+                cur = par.get(x)
+                while cur is not None and cur is not loop:
+                    if isinstance(cur, ast.If):
+                        gs.append((cur, any(y is x for b in cur.body for y in ast.walk(b))))
+                    cur = par.get(cur)
+                vals = []
+                for gi, inb in gs:
+                    v = guard_value(gi.test, tv)
+                    vals.append(None if v is None else (v if inb else not v))
+                if any(v is False for v in vals):
+                    continue      # not taken for a new, non-None job
+                if any(data_dependent(gi.test, tv) for gi, _ in gs):
+                    verdict, reason = False, f'`{pf.nsrc(x)}` under `{pf.nsrc(gs[0][0].test)}` leaves the loop body before the job is added'
+                else:
+                    verdict, reason = None, f'`{pf.nsrc(x)}` in the loop over `*{va}` is not decided'
+        if verdict is True:
+            covered = True
+        elif verdict is False:
+            lossy = reason
+        else:
+            unknown = reason
+    if lossy:
+        ctx.bad('R3', cons, f'does not add every job in `*{va}` to `self.{DEPS}` ({lossy}): an explicit dependency is lost - the job can be numbered and run before it and is '
+                            f'not skipped when it fails', m.path, dep.lineno)
+    elif covered:
+        ctx.ok('R3', cons)
+    else:
+        raise AnalysisError(f'{where}: {unknown}')
+
+
 def _r3(ctx: Ctx) -> None:
     m = pf.load(FJ)
     _dep_site(ctx, m, 'Job._interpolate_command.handler')
     _dep_site(ctx, m, 'PythonJob.call.handle_arg')
-    # the python site is applied to every argument and to the result
-    call = m.func('PythonJob.call')
-    ha = m.func('PythonJob.call.handle_args')
-    direct = [c for c in _calls_to(ha, 'handle_arg')]
-    ctx.need(len(direct) == 1, f'{FJ}::PythonJob.call.handle_args: expected one call of handle_arg')
-    tops = [pf.nsrc(c.args[0]) for c in _calls_to(call, 'handle_args') if len(c.args) == 1]
-    va, kw = (call.args.vararg.arg if call.args.vararg else None), (call.args.kwarg.arg if call.args.kwarg else None)
-    ctx.check(va in tops and kw in tops, 'R3', f'{FJ}::PythonJob.call::every argument is inspected',
-              f'handle_args is applied to {tops}, not to both `{va}` and `{kw}`: a resource passed that way induces no dependency', m.path, call.lineno)
+    _argument_walker(ctx, m)
 
-    # depends_on
-    dep = m.func('Job.depends_on')
-    va = dep.args.vararg.arg if dep.args.vararg else None
-    ctx.need(va is not None, f'{FJ}::Job.depends_on: no *jobs parameter')
-    ok = False
-    for st in _stmts(dep):
-        if isinstance(st, ast.For) and isinstance(st.iter, ast.Name) and st.iter.id == va and isinstance(st.target, ast.Name):
-            for b in st.body:
-                c = _method_call(b, 'add')
-                if c is not None and _is_attr(c.func.value, 'self', DEPS) and len(c.args) == 1 and isinstance(c.args[0], ast.Name) and c.args[0].id == st.target.id:  # type: ignore[union-attr]
-                    ok = True
-        c = _method_call(st, 'update')
-        if c is not None and _is_attr(c.func.value, 'self', DEPS) and len(c.args) == 1 and isinstance(c.args[0], ast.Name) and c.args[0].id == va:  # type: ignore[union-attr]
-            ok = True
-    ctx.check(ok, 'R3', f'{FJ}::Job.depends_on', f'does not add every job in `*{va}` to `self.{DEPS}`: explicit dependencies are lost', m.path, dep.lineno)
+    _depends_on(ctx, m)
     # the set starts empty per job
     init = m.func('Job.__init__')
     inits = [st for st in _stmts(init) if isinstance(st, (ast.Assign, ast.AnnAssign)) and _is_attr(st.targets[0] if isinstance(st, ast.Assign) else st.target, 'self', DEPS)]
@@ -636,19 +1883,33 @@ def _r3(ctx: Ctx) -> None:
     ctx.unit('functions', 5)
 
 
+R1_TEXT = ('Batch._async_run: the traversal (recursive post-order DFS behind a visited guard, an explicit work stack whose colour-set lifecycle is '
+           'enumerated, or in-degree counting) emits a job only after its dependencies, once; ids = positions; a dependency that is still being expanded is rejected '
+           '(cycle test index(dep) >= index(job), or a raise in the traversal) before - dominating - the backend call; self._jobs rebound to that order; '
+           'back end iterates it in order')
+R2_TEXT = ('LocalBackend: a failed or skipped job keeps exactly its not-always-run dependents from running (push style: child table inverse of _dependencies, '
+           'the cancelling helper is called on the skipped and failed branches and on every path a cancelled job can take; pull style: the skip decision is '
+           'enumerated over always_run x classes of parents against a set that records exactly the succeeded / the failed-and-skipped jobs and can contain every '
+           'possible parent); skipped jobs are not run, no other job is skipped, run_code reports failures')
+_DEFERRED: List[str] = []
+
+
 def run(ctx: Ctx) -> None:
     ctx.level = 'other'
     ctx.explanation = ('CFG dominance and must-pass-through queries on Batch._async_run, LocalBackend._async_run and the two resource-recording sites, '
-                       'with the cycle test compared in linear normal form; no repository code is run.')
-    ctx.rule('R1', 'Batch._async_run: post-order DFS over _dependencies behind a visited guard, ids = positions, cycle test index(dep) >= index(job) '
-                   'raising before (dominating) the backend call, self._jobs rebound to that order; back end iterates it in order', 11)
-    ctx.rule('R2', 'LocalBackend: child table inverse of _dependencies, cancel_child_jobs adds exactly not-always-run children and is called on the skipped and '
-                   'failed branches, skipped jobs are not run, only cancelled jobs are skipped, run_code reports failures', 12)
+                       'the cycle test compared in linear normal form, the colour-set lifecycle of an explicit-stack traversal and the truth table of a '
+                       'pull-style skip decision enumerated over their finite abstract domains; no repository code is run.')
+    ctx.rule('R1', R1_TEXT, 13)
+    ctx.rule('R2', R2_TEXT, 14)
     ctx.rule('R3', 'both resource-recording sites add a foreign non-None producer to self._dependencies on every normal path and never otherwise; '
-                   'depends_on adds every argument', 6)
+                   'the argument walker of PythonJob.call hands every Resource - of every class of resource.py, at top level or nested in list/tuple/dict - to the recording site; '
+                   'depends_on adds every argument', 8)
     ctx.assume('"transitively depend on a failed or skipped job" is the recursive definition: a non-always-run job is skipped iff one of its direct parents failed or was skipped')
     ctx.assume('subprocess.check_call / run(check=True) raise CalledProcessError exactly when the command exits non-zero')
+    del _DEFERRED[:]
     _r1(ctx)
     _r2(ctx)
     _r3(ctx)
     ctx.unit('files', 3)
+    if _DEFERRED:
+        raise AnalysisError('; '.join(_DEFERRED))
